@@ -1,19 +1,22 @@
 """C13 - ClientHello parsing is total (incomplete | ClientHello | ValueError) and independent of segmentation.
 
-Decided (structural clauses, nothing executed):
-  R13.1 (E5) on untrusted bytes the escape set of ``parse_client_hello`` / ``dtls_parse_client_hello`` (through
-        ``handshake_record_contents``, ``get_client_hello``, ``ClientHello.__init__`` and the two kaitai modules, whose stream reads raise
-        EOFError) is within the types handled at each of the three call sites (``ClientTLSLayer.receive_handshake_data`` and the TCP and
-        UDP branches of ``NextLayer._get_client_hello``); the ``ClientHello`` properties read afterwards outside any handler
-        (``sni``, ``alpn_protocols``, ``extensions``, ``cipher_suites``) raise nothing in the model (``decode("ascii")`` is guarded by
-        ``is_valid_host``, indexing by ``len(...) == 1``).
-  R13.2 segmentation independence: until the hello is parsed ``receive_handshake_data`` only appends to ``recv_buffer`` and parses the
-        WHOLE buffer; the buffer is cleared only after a hello was found; the record walkers / parsers are pure (no writes to arguments,
-        attributes or globals); ``NextLayer`` parses ``nextlayer.data_client()``, which joins all buffered client data.
-  R13.3 record-walking arithmetic: every ``struct.unpack`` in the record walkers is applied to a buffer whose length provably equals
-        the format size (so it cannot raise), and the constants agree with the TLS / DTLS layouts (record header 5 / 13 bytes, length
-        field at 3 / 11, handshake header 4 / 12 bytes added to the announced length and stripped before parsing); empty records are
-        rejected.
+Decided (nothing of the repository is imported or executed; ``mitmlint.pyint`` interprets the AST of the record walkers):
+  R13.1 (E5) on untrusted bytes the escape set of ``parse_client_hello`` / ``dtls_parse_client_hello`` (through the record walkers,
+        ``ClientHello.__init__`` and the two kaitai modules, whose stream reads raise EOFError) is within the types handled around every
+        place where ``ClientTLSLayer.receive_handshake_data`` and ``NextLayer._get_client_hello`` reach the parsers (the call sites are
+        found over the call graph, through extracted helpers); the ``ClientHello`` properties read afterwards outside any handler raise
+        nothing in the model.  Implicit raisers are discharged semantically: ``struct.error`` when the buffer length is *proved* equal to
+        the format size (symbolic length arithmetic over slices, temporaries, module constants, guards - also guards of the callers of an
+        extracted helper) or, failing a proof, when the bounded interpretation of R13.3/R13.4 never raised it (stated as a bound);
+        ``AssertionError`` when the asserted condition is implied by the preceding slices / guards (same arithmetic).
+  R13.2 segmentation independence: until the hello is parsed ``receive_handshake_data`` (helpers inlined) only appends the new data to
+        ``recv_buffer`` and parses the WHOLE buffer; the buffer is modified otherwise only after a hello was found; ``recv_buffer`` is
+        written only by ``__init__`` / ``receive_handshake_data`` and private helpers reachable from there alone; the record walkers /
+        parsers and everything they call are pure; ``NextLayer.data_client()`` (interpreted) is the concatenation of all buffered client data.
+  R13.3 record-walking arithmetic, decided by interpreting the walkers on crafted records derived from the TLS / DTLS layout table (record
+        header 5 / 13 bytes, 16-bit length at 3 / 11, handshake header 4 / 12 bytes with the 24-bit length at 1 / 9, header stripped before
+        parsing): every prefix of a multi-record stream yields exactly the complete records and raises nothing; empty records are rejected.
+  R13.4 record reassembly over every record split / prefix / tail of a short message (bounded).
 NOT decided: value-level agreement of SNI / ALPN / cipher suites with an independent TLS parser; QUIC ClientHello extraction.
 """
 
@@ -24,23 +27,32 @@ import struct as _struct
 
 from ..core import AnalysisError
 from ..core import norm
+from ..model import attr_chain
+from ..model import enclosing_func
 from ..model import walk_in_order
 from ..paths import GenericSpec
 from ..paths import traces_of
 from ..selftest import Mutant
-from ._helpers_H import _len_lower_bound
+from ._helpers_H import _end
+from ._helpers_H import _own_nodes
+from ._helpers_H import _pos
+from ._helpers_H import _writes
 from ._helpers_H import Config
 from ._helpers_H import guards_at
 from ._helpers_H import MayRaise
+from ._helpers_H import modules_mentioning
+from ._helpers_H import names_in
 
 PROP = "C13"
 REG = {
     "strength": "partial",
-    "technique": "exception-escape sets vs. handler coverage (E5, kaitai reads summarised as EOFError) + buffer-discipline path facts + "
-    "length arithmetic of the record walkers against the TLS/DTLS layout table",
-    "claim": "every explicit raise / modelled raiser of ClientHello parsing on untrusted bytes is handled at all three call sites and the "
-    "properties read afterwards raise nothing modelled; parsing always sees the whole accumulated buffer and the parsers are pure, so the "
-    "result is a function of the concatenation; the record walkers' offsets and sizes match the TLS/DTLS record and handshake headers.",
+    "technique": "exception-escape sets vs. handler coverage (E5, kaitai reads summarised as EOFError; struct.error / AssertionError discharged by "
+    "symbolic length arithmetic) + buffer-discipline path facts with helper inlining + AST interpretation of the record walkers on crafted "
+    "TLS/DTLS records (layout table) and on every record split of a short message",
+    "claim": "every explicit raise / modelled raiser of ClientHello parsing on untrusted bytes is handled wherever the layer and NextLayer reach the "
+    "parsers, and the properties read afterwards raise nothing modelled; parsing always sees the whole accumulated buffer and the parsers are pure, "
+    "so the result is a function of the concatenation; the record walkers' offsets and sizes match the TLS/DTLS record and handshake headers "
+    "(decided by interpretation on crafted records, bounded).",
     "note": "Trusted base: KaitaiStream read_* raise EOFError subclasses only; bytes.decode('idna') succeeds only on ASCII input.",
 }
 
@@ -48,6 +60,7 @@ L = "mitmproxy/proxy/layers/tls.py"
 T = "mitmproxy/tls.py"
 NL = "mitmproxy/addons/next_layer.py"
 CK = "mitmproxy/net/check.py"
+LAYER = "mitmproxy/proxy/layer.py"
 K1 = "mitmproxy/contrib/kaitaistruct/tls_client_hello.py"
 K2 = "mitmproxy/contrib/kaitaistruct/dtls_client_hello.py"
 
@@ -55,149 +68,1026 @@ KAITAI = {
     ".read_u1": (("EOFError",), "V"), ".read_u2be": (("EOFError",), "V"), ".read_u4be": (("EOFError",), "V"), ".read_u8be": (("EOFError",), "V"),
     ".read_bytes": (("EOFError",), "V"), ".read_bytes_full": ((), "V"), ".is_eof": ((), None),
     "kaitaistruct.KaitaiStream": ((), "V"), "kaitaistruct.BytesIO": ((), "V"),
+    # `from struct import unpack` spelling (the `struct.unpack` spelling is modelled by the engine itself)
+    "struct.unpack": (("struct.error",), "V"),
+    # logging calls added to the parsers: the logging package swallows formatting errors (logging.raiseExceptions only prints)
+    ".debug": ((), None), ".info": ((), None), ".warning": ((), None), ".error": ((), None), ".critical": ((), None), ".exception": ((), None), ".log": ((), None),
+    ".isEnabledFor": ((), None),
 }
 
+PARSERS = ("parse_client_hello", "dtls_parse_client_hello")
+WALKERS = ("handshake_record_contents", "get_client_hello", "parse_client_hello", "dtls_handshake_record_contents", "get_dtls_client_hello", "dtls_parse_client_hello")
+HELLO_PROPS = ("sni", "alpn_protocols", "extensions", "cipher_suites")
+
 # ---------------------------------------------------------------------------------------------------
-# exact byte lengths (R13.3, also used to discharge struct.error in R13.1)
+# small resolvers shared by the rules
 
 
 def _const_int(e):
     return e.value if isinstance(e, ast.Constant) and isinstance(e.value, int) and not isinstance(e.value, bool) else None
 
 
-def _single_def(fn, name):
-    defs = [n for n in walk_in_order(fn) if isinstance(n, ast.Assign) and any(isinstance(t, ast.Name) and t.id == name for t in n.targets)]
-    aug = [n for n in walk_in_order(fn) if isinstance(n, ast.AugAssign) and isinstance(n.target, ast.Name) and n.target.id == name]
-    return defs[0] if len(defs) == 1 and not aug else None
+def _dotted(mod, func) -> str:
+    """Dotted name of a callee with the module's imports resolved (`unpack` -> `struct.unpack`)."""
+    ch = attr_chain(func)
+    if not ch:
+        return ""
+    head = ch.split(".")[0]
+    if head in mod.imports:
+        return ".".join(mod.imports[head].split(".") + ch.split(".")[1:])
+    return ch
 
 
-def exact_len(e, fn, at):
-    """Provable exact length of the bytes expression ``e`` evaluated at node ``at`` of ``fn`` (None: not provable)."""
-    if isinstance(e, ast.Constant) and isinstance(e.value, bytes):
-        return len(e.value)
-    if isinstance(e, ast.BinOp) and isinstance(e.op, ast.Add):
-        a, b = exact_len(e.left, fn, at), exact_len(e.right, fn, at)
-        return None if a is None or b is None else a + b
-    if isinstance(e, ast.Name):
-        d = _single_def(fn, e.id)
-        if d is None or not isinstance(d.value, ast.Subscript) or not isinstance(d.value.slice, ast.Slice):
+def _struct_unpack_fmt(mod, call):
+    """Format string of a ``struct.unpack(<constant format>, buf)`` call (any import spelling), else None."""
+    if isinstance(call, ast.Call) and len(call.args) == 2 and not call.keywords and isinstance(call.args[0], ast.Constant) and isinstance(call.args[0].value, str) \
+            and _dotted(mod, call.func) == "struct.unpack":
+        try:
+            _struct.calcsize(call.args[0].value)
+        except _struct.error:
             return None
-        sl = d.value.slice
-        # Y[o : o + c] with len(Y) >= o + c established at the assignment
-        if sl.lower is not None and isinstance(sl.upper, ast.BinOp) and isinstance(sl.upper.op, ast.Add) and norm(sl.upper.left) == norm(sl.lower) \
-                and _const_int(sl.upper.right) is not None and sl.step is None:
-            want = f"len({norm(d.value.value)}) < {norm(sl.upper)}"
-            if any((not v) and norm(g) == want for g, v in guards_at(d, fn)):
-                return _const_int(sl.upper.right)
-        return None
-    if isinstance(e, ast.Subscript) and isinstance(e.slice, ast.Slice) and e.slice.step is None:
-        lo = 0 if e.slice.lower is None else _const_int(e.slice.lower)
-        if lo is None or lo < 0:
-            return None
-        if e.slice.upper is None:
-            n = exact_len(e.value, fn, at)
-            return None if n is None or n < lo else n - lo
-        hi = _const_int(e.slice.upper)
-        if hi is None or hi < lo:
-            return None
-        n = exact_len(e.value, fn, at)
-        lb = n if n is not None else _len_lower_bound(guards_at(at, fn), norm(e.value))
-        return hi - lo if lb >= hi else None
+        return call.args[0].value
     return None
 
 
-def _unpack_sites(fn):
-    return [n for n in walk_in_order(fn) if isinstance(n, ast.Call) and norm(n.func) == "struct.unpack"]
+def _fmt_unsigned(fmt) -> bool:
+    body = fmt[1:] if fmt[:1] in "@=<>!" else fmt
+    return bool(body) and all(ch in "BHILQ" or ch.isdigit() for ch in body)
 
 
-def _make_discharge():
-    def discharge(fr, exc, node, why):
-        if exc == "struct.error" and isinstance(node, ast.Call) and norm(node.func) == "struct.unpack" and len(node.args) == 2 \
-                and isinstance(node.args[0], ast.Constant):
-            n = exact_len(node.args[1], fr.fn, node)
-            if n is not None and n == _struct.calcsize(node.args[0].value):
-                return f"buffer length is provably {n} = calcsize({node.args[0].value!r})"
-        if exc == "IndexError" and isinstance(node, ast.Subscript) and isinstance(node.value, ast.Call) and norm(node.value.func) == "struct.unpack" \
-                and isinstance(node.value.args[0], ast.Constant) and _const_int(node.slice) is not None:
-            fmt = node.value.args[0].value
-            fields = len(_struct.unpack(fmt, bytes(_struct.calcsize(fmt))))
-            if 0 <= node.slice.value < fields:
-                return f"struct.unpack({fmt!r}, ...) yields {fields} field(s)"
-        if exc == "UnicodeDecodeError" and isinstance(node, ast.Call) and isinstance(node.func, ast.Attribute) and node.func.attr == "decode" \
-                and node.args and isinstance(node.args[0], ast.Constant) and node.args[0].value == "ascii":
-            want = f"check.is_valid_host({norm(node.func.value)})"
-            if any(v and norm(g) == want for g, v in guards_at(node, fr.fn)) and _is_valid_host_implies_ascii(fr.eng.model):
-                return "guarded by check.is_valid_host(<same bytes>), which returns False unless bytes.decode('idna') (ASCII only) succeeds"
+def _class_of(fn):
+    p = getattr(fn, "_parent", None)
+    return p if isinstance(p, ast.ClassDef) else None
+
+
+def _callee(model, mod, cls, call):
+    """(Module, FunctionDef) a call resolves to: ``self.m()`` / ``cls.m()`` along the MRO, module functions, imported functions."""
+    f = call.func
+    if isinstance(f, ast.Attribute) and isinstance(f.value, ast.Name) and f.value.id in ("self", "cls") and cls is not None:
+        return model.method(mod.rel, cls._qual, f.attr)
+    if isinstance(f, (ast.Name, ast.Attribute)) and attr_chain(f):
+        r = model.resolve_name(mod, f)
+        if r is not None and isinstance(r[1], (ast.FunctionDef, ast.AsyncFunctionDef)):
+            return r
+    return None
+
+
+def _fn_values(model, mod, e):
+    """The repository functions an expression may denote: the name of a function, or a conditional expression choosing between such."""
+    if isinstance(e, ast.IfExp):
+        a, b = _fn_values(model, mod, e.body), _fn_values(model, mod, e.orelse)
+        return a + b if a and b else []
+    if isinstance(e, (ast.Name, ast.Attribute)) and attr_chain(e):
+        r = model.resolve_name(mod, e)
+        if r is not None and isinstance(r[1], (ast.FunctionDef, ast.AsyncFunctionDef)):
+            return [r]
+    return []
+
+
+def _callees(model, mod, fn, call):
+    """All (Module, FunctionDef) a call in ``fn`` may reach: `_callee`, or - for a call through a single-assignment local such as
+    ``parse = dtls_parse_client_hello if self.is_dtls else parse_client_hello`` - the functions that local may hold."""
+    r = _callee(model, mod, _class_of(fn), call)
+    if r is not None:
+        return [r]
+    f = call.func
+    a = fn.args
+    if isinstance(f, ast.Name) and f.id not in {x.arg for x in a.posonlyargs + a.args + a.kwonlyargs}:
+        ds = _defs(fn).get(f.id, [])
+        if len(ds) == 1 and ds[0][0] == "assign":
+            return _fn_values(model, mod, ds[0][1].value)
+    return []
+
+
+def _is_parser(r) -> bool:
+    return r[0].rel == L and r[1]._qual in PARSERS
+
+
+def _own_calls(fn):
+    return sorted((n for n in _own_nodes(fn) if isinstance(n, ast.Call)), key=_pos)
+
+
+class _Graph:
+    """Which of the ClientHello parsers a function reaches over resolved calls (memoised, cycles cut)."""
+
+    def __init__(self, model):
+        self.model = model
+        self.memo = {}
+
+    def reached(self, mod, fn, depth=0) -> frozenset:
+        k = (mod.rel, fn._qual)
+        if k in self.memo:
+            return self.memo[k]
+        if mod.rel == L and fn._qual in PARSERS:
+            self.memo[k] = frozenset([fn._qual])
+            return self.memo[k]
+        self.memo[k] = frozenset()
+        out = set()
+        if depth < 6:
+            for c in _own_calls(fn):
+                for r in _callees(self.model, mod, fn, c):
+                    out |= self.reached(r[0], r[1], depth + 1)
+        self.memo[k] = frozenset(out)
+        return self.memo[k]
+
+    def via(self, mod, fn, call) -> frozenset:
+        out = frozenset()
+        for r in _callees(self.model, mod, fn, call):
+            out |= self.reached(r[0], r[1])
+        return out
+
+
+def _graph(ctx) -> _Graph:
+    g = getattr(ctx, "_c13_graph", None)
+    if g is None:
+        g = ctx._c13_graph = _Graph(ctx.model)
+    return g
+
+
+# ---------------------------------------------------------------------------------------------------
+# symbolic length arithmetic: discharges struct.error (exact buffer length) and assertions implied by slices / guards
+
+
+MUTATORS = frozenset("extend clear append pop insert remove reverse sort __delitem__ __setitem__ __iadd__ __imul__".split())
+
+
+def _mod_int(model, mod, name, depth=0):
+    vals = mod.assigns(name)
+    if not vals and name in mod.imports and "." in mod.imports[name]:
+        pkg, name = mod.imports[name].rsplit(".", 1)
+        mod = model.module_by_dotted(pkg)
+        vals = mod.assigns(name) if mod is not None else []
+    if len(vals) != 1 or depth > 3:
+        return None
+    return _eval_const(model, mod, vals[0], depth)
+
+
+def _eval_const(model, mod, v, depth):
+    c = _const_int(v)
+    if c is not None:
+        return c
+    if isinstance(v, ast.Name):
+        return _mod_int(model, mod, v.id, depth + 1)
+    if isinstance(v, ast.BinOp) and isinstance(v.op, (ast.Add, ast.Sub, ast.Mult)):
+        a, b = _eval_const(model, mod, v.left, depth), _eval_const(model, mod, v.right, depth)
+        if a is None or b is None:
+            return None
+        return a + b if isinstance(v.op, ast.Add) else a - b if isinstance(v.op, ast.Sub) else a * b
+    return None
+
+
+
+class Lin:
+    """Linear integer expression: sum(coef * atom) + c; atoms are normalised source texts."""
+
+    __slots__ = ("t", "c")
+
+    def __init__(self, t=None, c=0):
+        self.t = {k: v for k, v in (t or {}).items() if v}
+        self.c = c
+
+    def __add__(self, o):
+        t = dict(self.t)
+        for k, v in o.t.items():
+            t[k] = t.get(k, 0) + v
+        return Lin(t, self.c + o.c)
+
+    def __neg__(self):
+        return Lin({k: -v for k, v in self.t.items()}, -self.c)
+
+    def __sub__(self, o):
+        return self + (-o)
+
+    def scale(self, k):
+        return Lin({a: v * k for a, v in self.t.items()}, self.c * k)
+
+    def shift(self, k):
+        return Lin(self.t, self.c + k)
+
+    def __repr__(self):
+        return " + ".join([f"{v}*{k}" for k, v in sorted(self.t.items())] + [str(self.c)])
+
+
+def _defs(fn):
+    """name -> [(kind, node)] for every binding of a local name in ``fn``; kind: assign | tuple | aug | other."""
+    cached = getattr(fn, "_c13_defs", None)
+    if cached is not None:
+        return cached
+    out: dict = {}
+
+    def add(name, kind, node):
+        out.setdefault(name, []).append((kind, node))
+
+    def names(t, kind, node):
+        for e in ast.walk(t):
+            if isinstance(e, ast.Name):
+                add(e.id, kind, node)
+
+    for n in ast.walk(fn):
+        if isinstance(n, ast.Assign):
+            for t in n.targets:
+                if isinstance(t, ast.Name):
+                    add(t.id, "assign", n)
+                elif isinstance(t, (ast.Tuple, ast.List)):
+                    names(t, "tuple", n)
+        elif isinstance(n, ast.AnnAssign) and isinstance(n.target, ast.Name) and n.value is not None:
+            add(n.target.id, "assign", n)
+        elif isinstance(n, ast.AugAssign) and isinstance(n.target, ast.Name):
+            add(n.target.id, "aug", n)
+        elif isinstance(n, (ast.For, ast.AsyncFor, ast.comprehension)):
+            names(n.target, "other", n)
+        elif isinstance(n, ast.NamedExpr):
+            names(n.target, "other", n)
+        elif isinstance(n, (ast.With, ast.AsyncWith)):
+            for item in n.items:
+                if item.optional_vars is not None:
+                    names(item.optional_vars, "other", n)
+        elif isinstance(n, ast.ExceptHandler) and n.name:
+            add(n.name, "other", n)
+        elif isinstance(n, ast.Delete):
+            for t in n.targets:
+                names(t, "other", n)
+        elif isinstance(n, (ast.MatchAs, ast.MatchStar)) and n.name:
+            add(n.name, "other", n)
+    fn._c13_defs = out
+    return out
+
+
+def _is_len(e):
+    return isinstance(e, ast.Call) and isinstance(e.func, ast.Name) and e.func.id == "len" and len(e.args) == 1 and not e.keywords
+
+
+class Prover:
+    """Facts about lengths and integers that hold at a node of one function, derived from slices, single-assignment temporaries, module
+    constants and the guards in effect (``guards_at``: control dependence, early exits, preceding asserts).  Everything is a *proof*:
+    an expression that is not understood becomes an opaque atom, which can only make a claim unprovable."""
+
+    def __init__(self, model, mod, fn, depth=0):
+        self.model, self.mod, self.fn, self.depth = model, mod, fn, depth
+        a = fn.args
+        self.params = [x.arg for x in a.posonlyargs + a.args + a.kwonlyargs]
+        self.defs = _defs(fn)
+        self.locals = set(self.params) | set(self.defs) | {x.arg for x in (a.vararg, a.kwarg) if x is not None}
+        self.wpos: dict = {}
+        for pos, name in _writes(fn):
+            self.wpos.setdefault(name, []).append(pos)
+        self.atom_node: dict = {}
+        self._facts: dict = {}
+
+    # ---- building blocks
+    def atom(self, text, node):
+        self.atom_node.setdefault(text, node)
+        return Lin({text: 1})
+
+    def temp_def(self, name, at):
+        """The single assignment statement defining local ``name``, provided it precedes ``at`` (else None)."""
+        ds = self.defs.get(name, [])
+        if name in self.params or len(ds) != 1 or ds[0][0] != "assign":
+            return None
+        d = ds[0][1]
+        return d if _end(d) <= _pos(at) else None
+
+    def stable(self, names, frm, at) -> bool:
+        """No name in ``names`` is rebound between the end of ``frm`` and ``at`` (a loop around ``at`` that does not contain ``frm`` counts as between)."""
+        use = _pos(at)
+        loops = []
+        q = getattr(at, "_parent", None)
+        while q is not None and q is not self.fn:
+            if isinstance(q, (ast.While, ast.For, ast.AsyncFor)):
+                loops.append(q)
+            q = getattr(q, "_parent", None)
+        start = _end(frm)
+        for wname, poss in self.wpos.items():
+            if not any(wname == x or x.startswith(wname + ".") for x in names):
+                continue
+            for wp in poss:
+                if start <= wp < use:
+                    return False
+                for lp in loops:
+                    if _pos(lp) <= wp <= _end(lp) and not (_pos(lp) <= start <= _end(lp)):
+                        return False
+        return True
+
+    def stable_lin(self, lin, frm, at) -> bool:
+        ns = set()
+        for a in lin.t:
+            ns |= names_in(self.atom_node[a])
+        return self.stable(ns, frm, at)
+
+    def modconst(self, e):
+        """int value of a module-level constant (own module or imported by name; constant arithmetic allowed), else None."""
+        return _mod_int(self.model, self.mod, e.id) if isinstance(e, ast.Name) else None
+
+    def mutated(self, name) -> bool:
+        """Is the object bound to local ``name`` modified in place anywhere in the function?"""
+        for n in ast.walk(self.fn):
+            if isinstance(n, ast.Call) and isinstance(n.func, ast.Attribute) and isinstance(n.func.value, ast.Name) and n.func.value.id == name and n.func.attr in MUTATORS:
+                return True
+            if isinstance(n, ast.Subscript) and isinstance(n.ctx, (ast.Store, ast.Del)) and isinstance(n.value, ast.Name) and n.value.id == name:
+                return True
+        return False
+
+    @staticmethod
+    def _intlike(v) -> bool:
+        return isinstance(v, (ast.BinOp, ast.Name, ast.UnaryOp)) or _const_int(v) is not None or _is_len(v)
+
+    def lin(self, e, at) -> Lin:
+        c = _const_int(e)
+        if c is not None:
+            return Lin(c=c)
+        if isinstance(e, ast.UnaryOp) and isinstance(e.op, ast.USub):
+            return -self.lin(e.operand, at)
+        if isinstance(e, ast.BinOp) and isinstance(e.op, (ast.Add, ast.Sub)):
+            a, b = self.lin(e.left, at), self.lin(e.right, at)
+            return a + b if isinstance(e.op, ast.Add) else a - b
+        if isinstance(e, ast.BinOp) and isinstance(e.op, ast.Mult):
+            a, b = self.lin(e.left, at), self.lin(e.right, at)
+            if not a.t:
+                return b.scale(a.c)
+            if not b.t:
+                return a.scale(b.c)
+        if isinstance(e, ast.Name):
+            if e.id in self.locals:
+                d = self.temp_def(e.id, at)
+                if d is not None and self._intlike(d.value) and self.stable(names_in(d.value), d, at):
+                    return self.lin(d.value, d)
+                return self.atom(e.id, e)
+            v = self.modconst(e)
+            return Lin(c=v) if v is not None else self.atom(e.id, e)
+        if _is_len(e):
+            return self.len_lin(e.args[0], at)
+        return self.atom(norm(e), e)
+
+    def len_lin(self, b, at) -> Lin:
+        ln = self.length(b, at)
+        if ln is not None:
+            return ln
+        node = ast.Call(func=ast.Name(id="len", ctx=ast.Load()), args=[b], keywords=[])
+        return self.atom(f"len({norm(b)})", node)
+
+    def length(self, e, at):
+        """Exact length of the bytes-like expression ``e`` as a Lin valid at ``at`` (None: not provable)."""
+        if isinstance(e, ast.Constant) and isinstance(e.value, bytes):
+            return Lin(c=len(e.value))
+        if isinstance(e, ast.BinOp) and isinstance(e.op, ast.Add):
+            a, b = self.length(e.left, at), self.length(e.right, at)
+            return None if a is None or b is None else a + b
+        if isinstance(e, ast.Name) and e.id in self.locals:
+            d = self.temp_def(e.id, at)
+            if d is None or self.mutated(e.id):
+                return None
+            ln = self.length(d.value, d)  # the object is created by the assignment: its length is fixed there
+            return ln if ln is not None and self.stable_lin(ln, d, at) else None
+        if isinstance(e, ast.Call) and isinstance(e.func, ast.Name) and e.func.id in ("bytes", "bytearray", "memoryview") and len(e.args) == 1 and not e.keywords \
+                and e.func.id not in self.locals:
+            return self.length(e.args[0], at)  # only bytes-like arguments have a known length here
+        if isinstance(e, ast.Subscript) and isinstance(e.slice, ast.Slice) and e.slice.step is None:
+            lenb = self.len_lin(e.value, at)
+            lo = Lin() if e.slice.lower is None else self.lin(e.slice.lower, at)
+            hi = lenb if e.slice.upper is None else self.lin(e.slice.upper, at)
+            if not self.ge0(lo, at) or not self.ge0(hi - lo, at):
+                return None
+            if e.slice.upper is not None and not self.ge0(lenb - hi, at):
+                return None
+            return hi - lo
         return None
 
-    return discharge
+    # ---- facts and entailment
+    def facts(self, at):
+        k = id(at)
+        if k in self._facts:
+            return self._facts[k]
+        self._facts[k] = out = []
+        nonzero = []
+        for g, v in guards_at(at, self.fn):
+            if not (isinstance(g, ast.Compare) and len(g.ops) == 1):
+                continue
+            d = self.lin(g.left, g) - self.lin(g.comparators[0], g)
+            if not d.t or not self.stable_lin(d, g, at):
+                continue
+            op = type(g.ops[0])
+            if (op is ast.Lt and not v) or (op is ast.GtE and v):
+                out.append(d)
+            elif (op is ast.Gt and v) or (op is ast.LtE and not v):
+                out.append(d.shift(-1))
+            elif (op is ast.LtE and v) or (op is ast.Gt and not v):
+                out.append(-d)
+            elif (op is ast.Lt and v) or (op is ast.GtE and not v):
+                out.append((-d).shift(-1))
+            elif (op is ast.Eq and v) or (op is ast.NotEq and not v):
+                out.extend([d, -d])
+            elif (op is ast.Eq and not v) or (op is ast.NotEq and v):
+                nonzero.append(d)
+        # `x += e` earlier in an enclosing block, x non-negative before it (inductive invariant) and neither x nor e rebound since: x >= e
+        child, p = at, getattr(at, "_parent", None)
+        while p is not None and child is not self.fn:
+            for field in ("body", "orelse", "finalbody"):
+                blk = getattr(p, field, None)
+                if isinstance(blk, list) and any(child is s for s in blk):
+                    for s in blk:
+                        if s is child:
+                            break
+                        if isinstance(s, ast.AugAssign) and isinstance(s.op, ast.Add) and isinstance(s.target, ast.Name) and s.target.id in self.locals \
+                                and self.nonneg(s.target, set()) and self.stable({s.target.id} | names_in(s.value), s, at):
+                            out.append(self.atom(s.target.id, s.target) - self.lin(s.value, s))
+            child, p = p, getattr(p, "_parent", None)
+        for d in nonzero:
+            if self.ge0(d, at):
+                out.append(d.shift(-1))
+            elif self.ge0(-d, at):
+                out.append((-d).shift(-1))
+        return out
+
+    def ge0(self, lin, at, depth=0, used=()) -> bool:
+        """Is ``lin >= 0`` entailed at ``at``?  (non-negative atoms, at most two guard facts, guards of all callers for parameters)"""
+        if not lin.t:
+            return lin.c >= 0
+        if lin.c >= 0 and all(v > 0 and self.nonneg(self.atom_node[a], set()) for a, v in lin.t.items()):
+            return True
+        if depth < 2:
+            for i, f in enumerate(self.facts(at)):
+                if i in used or not (set(f.t) & set(lin.t)):
+                    continue
+                if self.ge0(lin - f, at, depth + 1, used + (i,)):
+                    return True
+        if depth == 0 and self.depth < 2:
+            return self.via_callers(lin)
+        return False
+
+    def nonneg(self, e, seen) -> bool:
+        c = _const_int(e)
+        if c is not None:
+            return c >= 0
+        if _is_len(e):
+            return True
+        if isinstance(e, ast.Call) and _dotted(self.mod, e.func) == "int.from_bytes" and not any(k.arg == "signed" for k in e.keywords) and len(e.args) <= 2:
+            return True
+        if isinstance(e, ast.Subscript) and _const_int(e.slice) is not None:
+            fmt = _struct_unpack_fmt(self.mod, e.value)
+            return fmt is not None and _fmt_unsigned(fmt)
+        if isinstance(e, ast.BinOp) and isinstance(e.op, (ast.Add, ast.Mult)):
+            return self.nonneg(e.left, seen) and self.nonneg(e.right, seen)
+        if isinstance(e, ast.Call) and self.depth < 2:
+            r = _callee(self.model, self.mod, _class_of(self.fn), e)  # a helper all of whose return values are non-negative
+            if r is not None:
+                rets = [n for n in _own_nodes(r[1]) if isinstance(n, ast.Return)]
+                gen = any(isinstance(n, (ast.Yield, ast.YieldFrom)) for n in _own_nodes(r[1]))
+                pv = Prover(self.model, r[0], r[1], self.depth + 1)
+                return bool(rets) and not gen and all(n.value is not None and pv.nonneg(n.value, set()) for n in rets)
+        if isinstance(e, ast.Name):
+            if e.id not in self.locals:
+                v = self.modconst(e)
+                return v is not None and v >= 0
+            if e.id in seen:
+                return True  # induction: every binding keeps the invariant, given that it holds before
+            if e.id in self.params or e.id not in self.defs:
+                return False
+            seen = seen | {e.id}
+            for kind, d in self.defs[e.id]:
+                if kind == "assign" and self.nonneg(d.value, seen):
+                    continue
+                if kind == "aug" and isinstance(d.op, (ast.Add, ast.Mult)) and self.nonneg(d.value, seen):
+                    continue
+                if kind == "tuple":
+                    fmt = _struct_unpack_fmt(self.mod, d.value)
+                    if fmt is not None and _fmt_unsigned(fmt):
+                        continue
+                if kind == "other" and isinstance(d, ast.NamedExpr) and self.nonneg(d.value, seen):
+                    continue
+                return False
+            return True
+        return False
+
+    def via_callers(self, lin) -> bool:
+        """``lin`` mentions only never-rebound parameters (as integers) and their lengths: prove it, translated to the arguments, at every call
+        site of the function (a default value that is used instead of an argument makes it unprovable)."""
+        binds = {}
+        for a in lin.t:
+            n = self.atom_node[a]
+            if _is_len(n) and isinstance(n.args[0], ast.Name) and n.args[0].id in self.params and n.args[0].id not in self.defs:
+                binds[a] = ("len", n.args[0].id)
+            elif isinstance(n, ast.Name) and n.id in self.params and n.id not in self.defs:
+                binds[a] = ("int", n.id)
+            else:
+                return False
+        sites = _call_sites(self.model, self.mod, self.fn)
+        if not sites:
+            return False
+        a = self.fn.args
+        pos = [x.arg for x in a.posonlyargs + a.args]
+        for cmod, cfn, call, skip in sites:
+            pv = Prover(self.model, cmod, cfn, self.depth + 1)
+            tr = Lin(c=lin.c)
+            for atom, (kind, p) in binds.items():
+                names = pos[1:] if skip else pos
+                arg = None
+                if p in names and names.index(p) < len(call.args) and not any(isinstance(x, ast.Starred) for x in call.args):
+                    arg = call.args[names.index(p)]
+                for kw in call.keywords:
+                    if kw.arg == p:
+                        arg = kw.value
+                if arg is None:
+                    return False
+                tr = tr + (pv.len_lin(arg, call) if kind == "len" else pv.lin(arg, call)).scale(lin.t[atom])
+            if not pv.ge0(tr, call):
+                return False
+        return True
+
+    def holds(self, e, at, trusted_type=None) -> bool:
+        """Is the condition ``e`` entailed at ``at``?"""
+        if isinstance(e, ast.BoolOp):
+            return (all if isinstance(e.op, ast.And) else any)(self.holds(v, at, trusted_type) for v in e.values)
+        if isinstance(e, ast.Constant):
+            return bool(e.value)
+        if isinstance(e, ast.Call) and isinstance(e.func, ast.Name) and e.func.id == "isinstance" and len(e.args) == 2 and trusted_type is not None:
+            return bool(trusted_type(e.args[0]))
+        if isinstance(e, ast.Compare):
+            left = e.left
+            for op, right in zip(e.ops, e.comparators):
+                d = self.lin(left, at) - self.lin(right, at)
+                ok = {
+                    ast.Eq: lambda: self.ge0(d, at) and self.ge0(-d, at),
+                    ast.GtE: lambda: self.ge0(d, at),
+                    ast.Gt: lambda: self.ge0(d.shift(-1), at),
+                    ast.LtE: lambda: self.ge0(-d, at),
+                    ast.Lt: lambda: self.ge0((-d).shift(-1), at),
+                    ast.NotEq: lambda: self.ge0(d.shift(-1), at) or self.ge0((-d).shift(-1), at),
+                }.get(type(op))
+                if ok is None or not ok():
+                    return False
+                left = right
+            return True
+        return False
 
 
-def _is_valid_host_implies_ascii(model) -> bool:
+def _call_sites(model, mod, fn):
+    """[(Module, caller FunctionDef, Call, skip_first)] for every use of function ``fn`` in the package; [] when some use is not a plain call
+    from inside a function (the function escapes as a value, is called at module level, is reached through an unknown receiver)."""
+    cached = getattr(fn, "_c13_sites", None)
+    if cached is not None:
+        return cached
+    cls = _class_of(fn)
+
+    def refers(m, n):
+        if isinstance(n, ast.Name) or cls is None:
+            r = model.resolve_name(m, n) if attr_chain(n) else None
+            return r is not None and r[1] is fn
+        caller = enclosing_func(n)
+        if isinstance(n.value, ast.Name) and n.value.id in ("self", "cls") and caller is not None and _class_of(caller) is not None:
+            r = model.method(m.rel, _class_of(caller)._qual, fn.name)
+            return r is not None and r[1] is fn
+        return None  # a method reached through some other receiver: unknown
+
+    out, ok = [], True
+    for m in modules_mentioning(model, fn.name):
+        for n in ast.walk(m.tree):
+            if not ((isinstance(n, ast.Name) and n.id == fn.name and isinstance(n.ctx, ast.Load)) or (isinstance(n, ast.Attribute) and n.attr == fn.name)):
+                continue
+            ref = refers(m, n)
+            if ref is False:
+                continue
+            p = getattr(n, "_parent", None)
+            caller = enclosing_func(n)
+            if ref is None or caller is None or not (isinstance(p, ast.Call) and p.func is n):
+                ok = False
+                continue
+            out.append((m, caller, p, cls is not None and isinstance(n, ast.Attribute)))
+    if not ok:
+        out = []
+    fn._c13_sites = out
+    return out
+
+
+def _prover(fr) -> Prover:
+    cache = fr.eng.__dict__.setdefault("_c13_provers", {})
+    k = id(fr.fn)
+    if k not in cache:
+        cache[k] = Prover(fr.eng.model, fr.mod, fr.fn)
+    return cache[k]
+
+
+# ---------------------------------------------------------------------------------------------------
+# bounded interpretation of the record walkers (R13.3, R13.4; fall-back evidence for struct.error in R13.1)
+
+LAYOUT = {
+    # walker, assembler, parser, record header bytes, offset of the 16-bit record length, handshake header bytes, offset of the 24-bit length
+    "tls": ("handshake_record_contents", "get_client_hello", "parse_client_hello", 5, 3, 4, 1),
+    "dtls": ("dtls_handshake_record_contents", "get_dtls_client_hello", "dtls_parse_client_hello", 13, 11, 12, 9),
+}
+MAGIC = {"tls": b"\x16\x03\x01", "dtls": b"\x16\xfe\xfd"}
+
+
+def _record(proto, body, typ=None, seq=0):
+    """One record of the layout table: magic, filler (DTLS epoch / sequence number: distinct non-zero bytes), 16-bit length, body."""
+    hdr, len_off = LAYOUT[proto][3:5]
+    h = bytearray(MAGIC[proto])
+    if typ is not None:
+        h[0] = typ
+    h += bytes((0x31 + i + seq) & 0xFF for i in range(len_off - len(h)))
+    h += len(body).to_bytes(2, "big")
+    h += bytes(hdr - len(h))
+    return bytes(h) + body
+
+
+def _handshake(proto, body):
+    """One handshake message of the layout table; for DTLS the total-length field deliberately differs from the fragment length."""
+    hs_hdr, len_at = LAYOUT[proto][5:7]
+    h = bytearray(hs_hdr)
+    h[0] = 1
+    if len_at != 1:
+        h[1:4] = (len(body) + 7).to_bytes(3, "big")
+        for i in range(4, len_at):
+            h[i] = 0x40 + i
+    h[len_at : len_at + 3] = len(body).to_bytes(3, "big")
+    return bytes(h) + body
+
+
+def _show(v):
+    if isinstance(v, (bytes, bytearray)):
+        return f"{len(v)} bytes" if len(v) > 12 else repr(bytes(v))
+    if isinstance(v, (list, tuple)):
+        return "[" + ", ".join(_show(x) for x in v) + "]"
+    return repr(v)
+
+
+class _NullLogger:
+    """What `logging.getLogger(..)` evaluates to inside the interpreter: every logging call is a no-op."""
+
+    def isEnabledFor(self, level):
+        return False
+
+    def __getattr__(self, name):
+        if name in ("debug", "info", "warning", "warn", "error", "exception", "critical", "log", "setLevel", "addHandler"):
+            return lambda *a, **k: None
+        raise AttributeError(name)
+
+
+class _LoggingStub:
+    CRITICAL, ERROR, WARNING, INFO, DEBUG, NOTSET = 50, 40, 30, 20, 10, 0
+
+    @staticmethod
+    def getLogger(*a, **k):
+        return _NullLogger()
+
+
+class Walkers:
+    """Runs the record walkers / parsers through mitmlint.pyint (``struct`` trusted, generators replayed lazily) and keeps what was entered
+    and which exception types were ever raised."""
+
+    def __init__(self, ctx):
+        from ..pyint import Interp
+        from ..pyint import Raised
+
+        self.ctx, self.m = ctx, ctx.model
+        self.entered: set = set()
+        self.raised: dict = {}
+        self.runs = 0
+        self.complete = False
+        self.used_as_evidence = False
+        entered = self.entered
+
+        class Trace(Interp):
+            def call_func(self, f, args, kwargs, depth):
+                entered.add(getattr(f.node, "name", "<lambda>"))
+                return super().call_func(f, args, kwargs, depth)
+
+        self._Interp, self._Raised = Trace, Raised
+        a = ctx.model.func(T, "ClientHello.__init__").args
+        self._hello_params = [x.arg for x in a.posonlyargs + a.args][1:]
+        ctx.require(len(self._hello_params) >= 1, "ClientHello.__init__ takes no raw bytes")
+
+    def _stub(self, *args, **kwargs):
+        vals = dict(zip(self._hello_params, args))
+        vals.update(kwargs)
+        raw = vals.get(self._hello_params[0])
+        flag = vals.get(self._hello_params[1], False) if len(self._hello_params) > 1 else False
+        return ("$ClientHello", bytes(raw), bool(flag))
+
+    def run(self, qual, *args, drive=False, stub=False):
+        it = self._Interp(self.m, trusted_modules={"struct": _struct, "logging": _LoggingStub})
+        it.externals = _functional_builtins(it)
+        if stub:
+            it.overrides[(L, "ClientHello")] = it.overrides[(T, "ClientHello")] = self._stub
+        self.runs += 1
+        try:
+            r = it.call(L, qual, *args)
+            return list(r) if drive else r
+        except self._Raised as r:
+            self.raised[r.name] = self.raised.get(r.name, 0) + 1
+            return f"<raises {r.name}>"
+
+    def never_raised(self, exc, fn):
+        name = {"struct.error": "error"}.get(exc, exc)
+        if not self.complete or fn.name not in self.entered or self.raised.get(name):
+            return None
+        if not self.used_as_evidence:
+            self.used_as_evidence = True
+            self.ctx.bounds.append(f"R13.1: a {exc} whose buffer length could not be proved is discharged by the {self.runs} interpreted runs of R13.3 / R13.4")
+        return (f"bounded: {self.runs} interpreted runs of the record walkers (every prefix of crafted multi-record streams, every 1-3 record split of a short "
+                f"message) entered {fn.name} and never raised {exc}; struct.unpack with a constant format can fail on the buffer length only")
+
+
+def _walkers(ctx) -> Walkers:
+    wk = getattr(ctx, "_c13_walkers", None)
+    if wk is None:
+        wk = ctx._c13_walkers = Walkers(ctx)
+    return wk
+
+
+def _valid_host_implies_ascii(ctx) -> bool:
+    """check.is_valid_host(b) is False for every sampled b containing a non-ASCII byte (interpreted; ``re`` / ``ipaddress`` / codecs trusted)."""
+    cached = getattr(ctx, "_c13_ascii", None)
+    if cached is not None:
+        return cached
+    import ipaddress
+    import re
+
+    from ..pyint import Interp
+    from ..pyint import Raised
+
+    ctx.func(CK, "is_valid_host")
+    ok = True
+    it = Interp(ctx.model, trusted_modules={"re": re, "ipaddress": ipaddress}, max_steps=2_000_000)
+    it.externals = _functional_builtins(it)
+    try:
+        ok = it.call(CK, "is_valid_host", b"example.com") is True
+        for hi in range(0x80, 0x100):
+            for sample in (bytes([hi]), b"a" + bytes([hi]) + b".example.com", b"example.co" + bytes([hi]), bytes([0xC3, 0x80 | (hi & 0x3F)]) + b"x.org"):
+                ctx.cells += 1
+                if it.call(CK, "is_valid_host", sample) is not False:
+                    ok = False
+        ctx.bounds.append("R13.1: is_valid_host interpreted on 512 host names containing one non-ASCII byte (every byte value 0x80-0xff in 4 positions)")
+    except Raised:
+        ok = False
+    except AnalysisError:
+        # outside the interpreter's subset: fall back on the structural argument (decode('idna') of the bytes at top level, failure -> False)
+        ok = _valid_host_decodes_idna_first(ctx.model)
+        if not ok:
+            raise
+    ctx._c13_ascii = ok
+    return ok
+
+
+def _functional_builtins(it):
+    """`map` / `filter` for the interpreter (its builtin table lacks them): applied through the interpreter, so repository functions work too."""
+    def _map(f, *seqs):
+        return [it.apply(f, list(a), {}, 0) for a in zip(*[it.iterate(s, None) for s in seqs])]
+
+    def _filter(f, seq):
+        return [x for x in it.iterate(seq, None) if it.truthy(x if f is None else it.apply(f, [x], {}, 0))]
+
+    return {"map": _map, "filter": _filter, "memoryview": memoryview}
+
+
+def _valid_host_decodes_idna_first(model) -> bool:
     fn = model.func(CK, "is_valid_host")
     for st in fn.body:  # top level, hence on every path that can return True
-        if isinstance(st, ast.Try) and len(st.body) == 1 and norm(st.body[0]) in ("host_bytes.decode('idna')", 'host_bytes.decode("idna")'):
-            if all(norm(h.type) in ("ValueError", "UnicodeError") and len(h.body) == 1 and norm(h.body[0]) == "return False" for h in st.handlers):
+        if isinstance(st, ast.Try) and len(st.body) == 1 and isinstance(st.body[0], ast.Expr) and isinstance(st.body[0].value, ast.Call) \
+                and isinstance(st.body[0].value.func, ast.Attribute) and st.body[0].value.func.attr == "decode" and [norm(a) for a in st.body[0].value.args] in (["'idna'"], ['"idna"']):
+            if all(h.type is not None and norm(h.type) in ("ValueError", "UnicodeError", "UnicodeDecodeError") and len(h.body) == 1 and norm(h.body[0]) == "return False" for h in st.handlers):
                 return True
         if any(isinstance(n, ast.Return) and isinstance(n.value, ast.Constant) and n.value.value is True for n in walk_in_order(st)):
             return False
     return False
 
 
+def _dynamic(fr, call):
+    """Calls through a function-valued local (`parse = a if c else b; parse(buf)`): all functions the local may hold."""
+    f = call.func
+    if isinstance(f, ast.Name) and fr._is_local(f.id):
+        rs = _callees(fr.eng.model, fr.mod, fr.fn, call)
+        if rs:
+            return [(m.rel, fn._qual) for m, fn in rs]
+    return None
+
+
+def _make_discharge(ctx):
+    wk = _walkers(ctx)
+
+    def discharge(fr, exc, node, why):
+        mod = fr.mod
+        if exc == "struct.error" and isinstance(node, ast.Call):
+            fmt = _struct_unpack_fmt(mod, node)
+            if fmt is not None:
+                size = _struct.calcsize(fmt)
+                ln = _prover(fr).length(node.args[1], node)
+                if ln is not None and not ln.t:
+                    return f"buffer length is provably {ln.c} = calcsize({fmt!r})" if ln.c == size else None
+                return wk.never_raised(exc, fr.fn)
+        if exc == "IndexError" and isinstance(node, ast.Subscript) and _const_int(node.slice) is not None:
+            fmt = _struct_unpack_fmt(mod, node.value)
+            if fmt is not None:
+                fields = len(_struct.unpack(fmt, bytes(_struct.calcsize(fmt))))
+                if 0 <= node.slice.value < fields:
+                    return f"struct.unpack({fmt!r}, ...) yields {fields} field(s)"
+        if exc == "IndexError" and isinstance(node, ast.Subscript) and _const_int(node.slice) is not None:
+            c = node.slice.value
+            pv = _prover(fr)
+            if pv.ge0(pv.len_lin(node.value, node).shift(-(c + 1) if c >= 0 else c), node):
+                return f"the guards in effect imply len({norm(node.value)[:40]}) >= {c + 1 if c >= 0 else -c} (length arithmetic)"
+        if exc == "AssertionError" and isinstance(node, ast.Assert):
+            def trusted(x):
+                ch = attr_chain(x)
+                return bool(ch) and fr.env.get(ch) != "A"
+
+            if _prover(fr).holds(node.test, node, trusted):
+                return "the asserted condition is implied by the preceding slices / guards (length arithmetic); isinstance of data whose type is trusted"
+        if exc == "UnicodeDecodeError" and isinstance(node, ast.Call) and isinstance(node.func, ast.Attribute) and node.func.attr == "decode":
+            enc = node.args[0] if node.args else next((k.value for k in node.keywords if k.arg == "encoding"), None)
+            if isinstance(enc, ast.Constant) and enc.value == "ascii":
+                recv = norm(node.func.value)
+                for g, v in guards_at(node, fr.fn):
+                    if v and isinstance(g, ast.Call) and len(g.args) == 1 and not g.keywords and norm(g.args[0]) == recv:
+                        r = fr.eng.model.resolve_name(fr.mod, g.func) if attr_chain(g.func) else None
+                        if r is not None and r[0].rel == CK and getattr(r[1], "name", "") == "is_valid_host" and _valid_host_implies_ascii(ctx):
+                            return "guarded by check.is_valid_host(<same bytes>), which is False for every sampled input with a non-ASCII byte (bytes.decode('idna') accepts ASCII only)"
+        return None
+
+    return discharge
+
+
 # ---------------------------------------------------------------------------------------------------
+# R13.1
 
 
-def _handled(mr, rel, t):
+def _handled(mr, rel, tries):
+    """Exception types caught around a region by the enclosing ``try`` statements (a handler that re-raises what it caught does not count)."""
     mod = mr.model.module(rel)
     out = []
-    for h in t.handlers:
-        out += ["BaseException"] if h.type is None else [mr.h.canon(mod, e) for e in (h.type.elts if isinstance(h.type, ast.Tuple) else [h.type])]
+    for t in tries:
+        for h in t.handlers:
+            reraises = any(isinstance(n, ast.Raise) and (n.exc is None or (isinstance(n.exc, ast.Name) and n.exc.id == h.name)) for s in h.body for n in ast.walk(s))
+            if reraises:
+                continue
+            out += ["BaseException"] if h.type is None else [mr.h.canon(mod, e) for e in (h.type.elts if isinstance(h.type, ast.Tuple) else [h.type])]
+    return out
+
+
+def _bytes_params(fn):
+    out = []
+    a = fn.args
+    for x in a.posonlyargs + a.args + a.kwonlyargs:
+        if x.arg in ("self", "cls"):
+            continue
+        ann = norm(x.annotation) if x.annotation is not None else None
+        if ann is None or any(w in ann for w in ("bytes", "bytearray", "memoryview")):
+            out.append(x.arg)
+    return out
+
+
+def _spread(fn, env):
+    """Entry kinds plus the local names bound (anywhere in ``fn``) to an expression that mentions an untrusted name."""
+    env = dict(env)
+    changed = True
+    while changed:
+        changed = False
+        for n in _own_nodes(fn):
+            tv = None
+            if isinstance(n, ast.Assign):
+                tv = (n.targets, n.value)
+            elif isinstance(n, (ast.AnnAssign, ast.NamedExpr)) and n.value is not None:
+                tv = ([n.target], n.value)
+            if tv is None or not (names_in(tv[1]) & set(env)):
+                continue
+            for t in tv[0]:
+                if isinstance(t, ast.Name) and t.id not in env:
+                    env[t.id] = "V"
+                    changed = True
+    return env
+
+
+def _stmt_of(n):
+    while n is not None and not isinstance(n, ast.stmt):
+        n = getattr(n, "_parent", None)
+    return n
+
+
+def _enclosing_tries(call, fn):
+    """try statements of ``fn`` (innermost first) that have handlers and whose *body* contains ``call``."""
+    out = []
+    child, p = call, getattr(call, "_parent", None)
+    while p is not None and child is not fn:
+        if isinstance(p, ast.Try) and p.handlers and any(child is s for s in p.body):
+            out.append(p)
+        child, p = p, getattr(p, "_parent", None)
+    return out
+
+
+def _parse_sites(ctx, rel, qual, env):
+    """The regions around which ClientHello parsing must be total: for every call in ``rel::qual`` through which a parser is reached, the body
+    of the innermost enclosing try (handlers of all enclosing tries count); a helper that is not wrapped by its caller is searched itself."""
+    g = _graph(ctx)
+    model = ctx.model
+    sites: dict = {}
+
+    def scan(mod, fn, env, depth):
+        env = _spread(fn, env)
+        for c in _own_calls(fn):
+            hit = g.via(mod, fn, c)
+            if not hit:
+                continue
+            tries = _enclosing_tries(c, fn)
+            rs = _callees(model, mod, fn, c)
+            direct = any(_is_parser(r) for r in rs)
+            for m2, f2 in ([] if tries or direct or depth >= 3 else rs):
+                if not g.reached(m2, f2):
+                    continue
+                a = f2.args
+                params = [x.arg for x in a.posonlyargs + a.args]
+                env2 = {}
+                if params and params[0] in ("self", "cls") and isinstance(c.func, ast.Attribute):
+                    params = params[1:]
+                    env2.update({k: v for k, v in env.items() if k.startswith("self.")})
+                for p, arg in zip(params, c.args):
+                    if names_in(arg) & set(env):
+                        env2[p] = "V"
+                for kw in c.keywords:
+                    if kw.arg and names_in(kw.value) & set(env):
+                        env2[kw.arg] = "V"
+                ctx.functions.add(f"{m2.rel}::{f2._qual}")
+                scan(m2, f2, env2, depth + 1)
+            if not tries and not direct and depth < 3:
+                continue
+            node = tries[0] if tries else _stmt_of(c)
+            s = sites.setdefault(id(node), {"rel": mod.rel, "qual": fn._qual, "node": node, "region": node.body if tries else [node], "tries": tries, "env": env, "hit": set()})
+            s["hit"] |= hit
+
+    fn = ctx.func(rel, qual)
+    scan(model.module(rel), fn, env, 0)
+    return sorted(sites.values(), key=lambda s: (s["rel"], _pos(s["node"])))
+
+
+def _result_calls(v):
+    """The calls whose result an expression may evaluate to (through conditional expressions, `or` / `and`, `:=`, yield from / await)."""
+    if isinstance(v, (ast.YieldFrom, ast.Await, ast.NamedExpr)):
+        return _result_calls(v.value)
+    if isinstance(v, ast.IfExp):
+        return _result_calls(v.body) + _result_calls(v.orelse)
+    if isinstance(v, ast.BoolOp):
+        return [c for x in v.values for c in _result_calls(x)]
+    return [v] if isinstance(v, ast.Call) else []
+
+
+def _hello_names(ctx, fns):
+    """Local names bound to the result of a parser (or of a helper through which a parser is reached) in the given (Module, FunctionDef)s."""
+    g = _graph(ctx)
+    out = set()
+    for mod, fn in fns:
+        for n in _own_nodes(fn):
+            v, ts = None, []
+            if isinstance(n, ast.Assign):
+                v, ts = n.value, n.targets
+            elif isinstance(n, (ast.AnnAssign, ast.NamedExpr)) and n.value is not None:
+                v, ts = n.value, [n.target]
+            if v is not None and any(g.via(mod, fn, c) for c in _result_calls(v)):
+                # `hello, err = self._try_parse()`: every element may be the hello (over-approximation, it only widens "a hello was found")
+                out |= {e.id for t in ts for e in (t.elts if isinstance(t, (ast.Tuple, ast.List)) else [t]) if isinstance(e, ast.Name)}
     return out
 
 
 def _r13_1(ctx):
-    for q in ("handshake_record_contents", "get_client_hello", "parse_client_hello", "dtls_handshake_record_contents", "get_dtls_client_hello", "dtls_parse_client_hello"):
+    for q in WALKERS:
         ctx.func(L, q)
     ctx.func(T, "ClientHello.__init__")
     ctx.func(K1, "TlsClientHello._read")
     ctx.func(K2, "DtlsClientHello._read")
     ctx.trust("KaitaiStream.read_u1/read_u2be/read_u4be/read_bytes raise EOFError subclasses only (kaitaistruct runtime)")
-    sites = []
     rh = ctx.func(L, "ClientTLSLayer.receive_handshake_data")
-    tr = [n for n in walk_in_order(rh) if isinstance(n, ast.Try) and "parse_client_hello(" in ast.unparse(n.body[0])]
-    ctx.require(len(tr) == 1, "receive_handshake_data: try around the parser changed shape")
-    sites.append((L, "ClientTLSLayer.receive_handshake_data", tr[0], {"self.recv_buffer": "V"}, 2))
     gch = ctx.func(NL, "NextLayer._get_client_hello")
-    for needle in ("parse_client_hello(data_client)", "dtls_parse_client_hello(data_client)"):
-        tr = [n for n in walk_in_order(gch) if isinstance(n, ast.Try) and len(n.body) == 1 and isinstance(n.body[0], ast.Assign)
-              and norm(n.body[0].value) == needle]
-        ctx.require(len(tr) == 1, f"NextLayer._get_client_hello: try around {needle} changed shape")
-        sites.append((NL, "NextLayer._get_client_hello", tr[0], {"data_client": "V"}, 1))
-    for rel, qual, t, env, nparsers in sites:
-        mr = MayRaise(ctx, Config(externals=KAITAI, discharge=_make_discharge()))
-        esc = mr.region(rel, qual, t.body, env)
-        key = mr.key_of_region(rel, qual, env)
-        ctx.require(mr.sites >= 20 * nparsers and {"ValueError"} <= {e.exc for e in esc} and any(f.startswith(K1) or f.startswith(K2) for f in mr.functions),
-                    f"{qual}: escape analysis collapsed ({mr.sites} sites, {sorted({e.exc for e in esc})})")
-        ctx.paths += mr.sites
-        for f in mr.functions:
-            ctx.functions.add(f)
-        handled = _handled(mr, rel, t)
-        bad = sorted((e for e in esc if not any(mr.h.isa(e.exc, h) for h in handled)), key=lambda e: (e.exc, e.rel, e.qual, e.text))
-        what = norm(t.body[0])[:60]
-        for typ in sorted({e.exc for e in bad}):
-            first = next(e for e in bad if e.exc == typ)
-            ctx.fail("R13.1", (rel, qual, t), f"{typ} escapes ClientHello parsing",
-                     f"{typ} raised at {first.site()} ({first.why}) is not handled around `{what}` (handled: {handled}); call chain: " + " -> ".join(mr.chain(key, first)),
-                     chain=mr.chain(key, first))
-        if not bad:
-            ctx.ok("R13.1", f"{qual} `{what}`: {mr.sites} raiser sites, {len(mr.functions)} functions, escape set {sorted({e.exc for e in esc})} within {handled}")
-        for k, v in sorted(mr.discharged.items()):
-            ctx.assume(f"discharged: {k}: {v}")
+    entries = [(L, "ClientTLSLayer.receive_handshake_data", {"self.recv_buffer": "V", **{p: "V" for p in _bytes_params(rh)}}),
+               (NL, "NextLayer._get_client_hello", {p: "V" for p in _bytes_params(gch)})]
+    n_sites = 0
+    for rel, qual, env in entries:
+        sites = _parse_sites(ctx, rel, qual, env)
+        reached = set().union(*[s["hit"] for s in sites]) if sites else set()
+        ctx.require(reached == set(PARSERS), f"{qual}: reaches the parsers {sorted(reached)} (expected both {list(PARSERS)}): anchor changed shape")
+        for s in sites:
+            n_sites += 1
+            srel, squal, t = s["rel"], s["qual"], s["node"]
+            mr = MayRaise(ctx, Config(externals=KAITAI, discharge=_make_discharge(ctx), taint_through_mutation=True, dynamic=_dynamic))
+            esc = mr.region(srel, squal, s["region"], s["env"])
+            key = mr.key_of_region(srel, squal, s["env"])
+            ctx.require(mr.sites >= 20 * len(s["hit"]) and {"ValueError"} <= {e.exc for e in esc} and any(f.startswith(K1) or f.startswith(K2) for f in mr.functions),
+                        f"{squal}: escape analysis collapsed ({mr.sites} sites, {sorted({e.exc for e in esc})})")
+            ctx.paths += mr.sites
+            for f in mr.functions:
+                ctx.functions.add(f)
+            handled = _handled(mr, srel, s["tries"])
+            bad = sorted((e for e in esc if not any(mr.h.isa(e.exc, h) for h in handled)), key=lambda e: (e.exc, e.rel, e.qual, e.text))
+            what = "/".join(sorted(s["hit"]))
+            for typ in sorted({e.exc for e in bad}):
+                first = next(e for e in bad if e.exc == typ)
+                ctx.fail("R13.1", (srel, squal, t), f"{typ} escapes ClientHello parsing",
+                         f"{typ} raised at {first.site()} ({first.why}) is not handled around the call of {what} (handled: {handled}); call chain: " + " -> ".join(mr.chain(key, first)),
+                         chain=mr.chain(key, first))
+            if not bad:
+                ctx.ok("R13.1", f"{squal} around {what}: {mr.sites} raiser sites, {len(mr.functions)} functions, escape set {sorted({e.exc for e in esc})} within {handled}")
+            for k, v in sorted(mr.discharged.items()):
+                ctx.assume(f"discharged: {k}: {v}")
     # properties read outside any handler
-    for prop in ("sni", "alpn_protocols", "extensions", "cipher_suites"):
+    for prop in HELLO_PROPS:
         ctx.func(T, f"ClientHello.{prop}")
-        mr = MayRaise(ctx, Config(externals=KAITAI, discharge=_make_discharge(), attr_on_any=False))
+        mr = MayRaise(ctx, Config(externals=KAITAI, discharge=_make_discharge(ctx), attr_on_any=False, taint_through_mutation=True))
         s = mr.function(T, f"ClientHello.{prop}", {"self._client_hello": "V"})
         key = (T, f"ClientHello.{prop}", (("self._client_hello", "V"),))
         for typ in sorted({e.exc for e in s.escapes}):
@@ -208,137 +1098,466 @@ def _r13_1(ctx):
             ctx.ok("R13.1", f"ClientHello.{prop}: raises nothing modelled ({mr.sites} sites examined, discharged {len(mr.discharged)})")
         for k, v in sorted(mr.discharged.items()):
             ctx.assume(f"discharged: {k}: {v}")
-    # the properties are what the callers read afterwards
-    reads = {n.attr for n in walk_in_order(rh) if isinstance(n, ast.Attribute) and norm(n.value) == "client_hello"}
-    ctx.require(reads <= {"sni", "alpn_protocols", "extensions", "cipher_suites"}, f"receive_handshake_data reads unmodelled ClientHello attributes {sorted(reads)}")
-    ctx.expect_instances("R13.1", 7)
+    # the properties are what the layer reads afterwards from the parsed hello (whatever the local is called)
+    lmod = ctx.model.module(L)
+    fns = [(lmod, rh)] + [(lmod, f) for f in _layer_helpers(ctx)[0].values()]
+    names = _hello_names(ctx, fns)
+    ctx.require(names, "receive_handshake_data: the parser result is not bound to a local (shape not modelled)")
+    reads = {n.attr for _, f in fns for n in walk_in_order(f) if isinstance(n, ast.Attribute) and isinstance(n.value, ast.Name) and n.value.id in names}
+    ctx.require(reads <= set(HELLO_PROPS), f"receive_handshake_data reads unmodelled ClientHello attributes {sorted(reads)}")
+    ctx.expect_instances("R13.1", 2 + len(HELLO_PROPS))  # at least one region per entry point; today 3
+
+
+# ---------------------------------------------------------------------------------------------------
+# R13.2
+
+BUF = "self.recv_buffer"
+
+
+def _layer_helpers(ctx):
+    """(helpers, resolver, aliases, copies): the methods of ClientTLSLayer / module functions of tls.py that receive_handshake_data calls
+    (transitively) and that touch recv_buffer or reach a parser - they are analysed as if their bodies stood at the call; the local names
+    (also parameters of those helpers) that alias recv_buffer, and those bound to a copy of it."""
+    cached = getattr(ctx, "_c13_helpers", None)
+    if cached is not None:
+        return cached
+    model = ctx.model
+    mod = model.module(L)
+    cls = model.cls(L, "ClientTLSLayer")
+    rh = model.func(L, "ClientTLSLayer.receive_handshake_data")
+    methods = {st.name: st for st in cls.body if isinstance(st, (ast.FunctionDef, ast.AsyncFunctionDef)) and st is not rh}
+    modfuncs = {st.name: st for st in mod.tree.body if isinstance(st, (ast.FunctionDef, ast.AsyncFunctionDef)) and st.name not in WALKERS}
+    memo: dict = {}
+
+    def target(call):
+        f = call.func
+        if isinstance(f, ast.Attribute) and isinstance(f.value, ast.Name) and f.value.id == "self" and f.attr in methods:
+            return methods[f.attr]
+        if isinstance(f, ast.Name) and f.id in modfuncs:
+            return modfuncs[f.id]
+        return None
+
+    def is_parser_call(fn, c):
+        return any(_is_parser(r) for r in _callees(model, mod, fn, c))
+
+    def touches(fn):
+        k = id(fn)
+        if k not in memo:
+            memo[k] = False
+            memo[k] = any(isinstance(n, ast.Attribute) and n.attr == "recv_buffer" and not _only_reads(n) for n in _own_nodes(fn)) or any(
+                is_parser_call(fn, c) or (target(c) is not None and touches(target(c))) for c in _own_calls(fn))
+        return memo[k]
+
+    def resolver(call):
+        t = target(call)
+        return t if t is not None and touches(t) else None
+
+    helpers: dict = {}
+    todo = [rh]
+    while todo:
+        fn = todo.pop()
+        for c in _own_calls(fn):
+            t = resolver(c)
+            if t is None:
+                continue
+            if not _inlinable_position(c):
+                raise AnalysisError(f"{norm(c)[:80]}: a helper that touches recv_buffer / the parser is called in a position the path engine does not inline (shape not modelled)")
+            if t.name not in helpers:
+                helpers[t.name] = t
+                ctx.functions.add(f"{L}::{t._qual}")
+                todo.append(t)
+    aliases, copies = set(), set()
+
+    def is_buf(e):
+        return attr_chain(e) == BUF or (isinstance(e, ast.Name) and e.id in aliases)
+
+    def is_copy(e):
+        return isinstance(e, ast.Call) and isinstance(e.func, ast.Name) and e.func.id in ("bytes", "bytearray") and len(e.args) == 1 and not e.keywords and (is_buf(e.args[0]) or is_copy(e.args[0]))
+
+    changed = True
+    while changed:
+        changed = False
+        for fn in [rh, *helpers.values()]:
+            for n in _own_nodes(fn):
+                if isinstance(n, ast.Assign) and len(n.targets) == 1 and isinstance(n.targets[0], ast.Name):
+                    name = n.targets[0].id
+                    if is_buf(n.value) and name not in aliases:
+                        aliases.add(name)
+                        changed = True
+                    if is_copy(n.value) and name not in copies:
+                        copies.add(name)
+                        changed = True
+                if isinstance(n, ast.Call) and resolver(n) is not None:
+                    t = resolver(n)
+                    a = t.args
+                    params = [x.arg for x in a.posonlyargs + a.args]
+                    if params and params[0] in ("self", "cls") and isinstance(n.func, ast.Attribute):
+                        params = params[1:]
+                    for p, arg in list(zip(params, n.args)) + [(k.arg, k.value) for k in n.keywords if k.arg]:
+                        if is_buf(arg) and p not in aliases:
+                            aliases.add(p)
+                            changed = True
+                        if is_copy(arg) and p not in copies:
+                            copies.add(p)
+                            changed = True
+    ctx._c13_helpers = (helpers, resolver, aliases, copies)
+    return ctx._c13_helpers
+
+
+READERS = frozenset("bytes bytearray len memoryview str repr bool print hash".split())
+
+
+def _only_reads(n) -> bool:
+    """Does this occurrence of ``<obj>.recv_buffer`` only read the buffer (a method that does not modify it, a copy, its length, indexing,
+    formatting, a comparison / truth test)?  Anything else - a write, an in-place method, an alias, handing it to another callee - may change it
+    or decide what is parsed, and the helper containing it is analysed like the statements it replaced."""
+    p = getattr(n, "_parent", None)
+    if isinstance(n.ctx, (ast.Store, ast.Del)):
+        return False
+    if isinstance(p, ast.Attribute) and p.value is n:
+        return p.attr not in MUTATORS and isinstance(p.ctx, ast.Load)
+    if isinstance(p, ast.Subscript) and p.value is n:
+        return isinstance(p.ctx, ast.Load)
+    if isinstance(p, ast.Call) and p.func is not n:
+        return isinstance(p.func, ast.Name) and p.func.id in READERS
+    return isinstance(p, (ast.FormattedValue, ast.Compare, ast.BoolOp, ast.UnaryOp, ast.If, ast.While, ast.IfExp, ast.Assert)) and not (isinstance(p, ast.IfExp) and p.test is not n)
+
+
+def _inlinable_position(c) -> bool:
+    p = getattr(c, "_parent", None)
+    if isinstance(p, (ast.YieldFrom, ast.Await)):
+        c, p = p, getattr(p, "_parent", None)
+    if isinstance(p, ast.Expr):
+        return True
+    if isinstance(p, (ast.Assign, ast.AnnAssign, ast.Return)) and p.value is c:
+        return True
+    while isinstance(p, (ast.UnaryOp, ast.BoolOp)):
+        c, p = p, getattr(p, "_parent", None)
+    return isinstance(p, (ast.If, ast.While)) and p.test is c
+
+
+class _BufSpec(GenericSpec):
+    """GenericSpec whose events speak of recv_buffer under one name whatever alias the code uses; `buf += x` is an `extend`."""
+
+    def __init__(self, aliases, **kw):
+        super().__init__(**kw)
+        self.aliases = sorted(aliases | {BUF}, key=len, reverse=True)
+
+    def canon(self, text):
+        for a in self.aliases:
+            if text == a:
+                return BUF
+            if text.startswith(a + ".") or text.startswith(a + "["):
+                return BUF + text[len(a):]
+        return text
+
+    def events(self, node, st):
+        out = []
+        for ev in super().events(node, st):
+            if ev[0] in ("call", "assign", "del") and len(ev) == 2:
+                raw = ev[1]
+                ev = (ev[0], self.canon(raw))
+                if ev == ("assign", BUF) and isinstance(node, ast.AugAssign) and isinstance(node.op, ast.Add):
+                    ev = ("call", BUF + ".extend")
+                elif ev == ("assign", BUF) and raw != BUF:
+                    continue  # `buf = self.recv_buffer`: binding a local alias does not touch the buffer
+            out.append(ev)
+        return out
 
 
 def _r13_2(ctx):
+    model = ctx.model
+    mod = model.module(L)
     rh = ctx.func(L, "ClientTLSLayer.receive_handshake_data")
+    helpers, resolver, aliases, copies = _layer_helpers(ctx)
+    fns = [rh, *helpers.values()]
+    names = _hello_names(ctx, [(mod, f) for f in fns])
+    data_params = _bytes_params(rh)
 
-    def keep(ev):
-        if ev[0] == "call":
-            return ev[1] in ("self.recv_buffer.extend", "self.recv_buffer.clear", "parse_client_hello", "dtls_parse_client_hello") or ev[1].startswith("self.recv_buffer.")
-        if ev[0] == "assign":
-            return ev[1].startswith("self.recv_buffer")
-        return ev[0] in ("cond", "return")
+    parser_locals = {n.func.id for fn in fns for n in _own_nodes(fn) if isinstance(n, ast.Call) and isinstance(n.func, ast.Name) and n.func.id not in PARSERS
+                     and any(_is_parser(r) for r in _callees(model, mod, fn, n))}
 
-    traces, eng = traces_of(rh, GenericSpec(keep=keep, record_conds=True, unroll=1))
+    def is_parse(ev):
+        return ev[0] == "call" and (ev[1].split(".")[-1] in PARSERS or ev[1] in parser_locals)
+
+    def is_write(ev):
+        if ev[0] in ("assign", "del"):
+            return ev[1] == BUF or ev[1].startswith(BUF + "[") or ev[1].startswith(BUF + ".")
+        return ev[0] == "call" and ev[1].startswith(BUF + ".") and ev[1].split(".")[-1] in MUTATORS
+
+    spec = _BufSpec(aliases, keep=None, resolver=resolver, record_conds=True, unroll=1)
+    spec._keep = lambda ev: ev[0] in ("cond", "return") or (ev[0] in ("call", "assign", "del") and len(ev) == 2 and (is_parse(ev) or spec.canon(ev[1]).startswith(BUF)))
+    traces, eng = traces_of(rh, spec)
     ctx.paths += len(traces)
+
+    def hello_found(conds):
+        for text, val in conds:
+            for n in names:
+                if (text in (n, f"{n} is not None", f"bool({n})") and val) or (text in (f"{n} is None", f"not {n}") and not val):
+                    return True
+        return False
+
+    def already_parsed(conds):
+        return ("self.client_hello_parsed", True) in conds or ("not self.client_hello_parsed", False) in conds
+
     bad = None
     n_parse = 0
     for tr, how, st in traces:
         conds = [(e[1], e[2]) for e in tr if e[0] == "cond"]
-        if ("self.client_hello_parsed", True) in conds:
+        if already_parsed(conds):
             continue
-        evs = [e for e in tr if e[0] in ("call", "assign")]
-        if not evs or evs[0] != ("call", "self.recv_buffer.extend"):
-            bad = bad or f"a path does not start by appending to recv_buffer: {evs[:3]}"
+        seq = [e for e in tr if e[0] in ("call", "assign", "del") and (is_parse(e) or is_write(e))]
+        if not seq or seq[0] != ("call", BUF + ".extend"):
+            bad = bad or f"a path does not start by appending to recv_buffer: {seq[:3]}"
             continue
-        parse_i = next((i for i, e in enumerate(evs) if e[1] in ("parse_client_hello", "dtls_parse_client_hello")), None)
+        parse_i = next((i for i, e in enumerate(seq) if is_parse(e)), None)
         if parse_i is None:
             bad = bad or "a path does not parse the buffer"
             continue
         n_parse += 1
-        for i, e in enumerate(evs):
-            if e[1] not in ("self.recv_buffer.extend", "self.recv_buffer.clear", "parse_client_hello", "dtls_parse_client_hello", "self.recv_buffer.hex"):
-                bad = bad or f"recv_buffer is touched by {e}"
-            if e == ("call", "self.recv_buffer.clear"):
-                if i < parse_i:
-                    bad = bad or "recv_buffer cleared before parsing"
-                if ("client_hello", True) not in conds:
-                    bad = bad or "recv_buffer cleared on a path where no complete ClientHello was found"
-            if e[0] == "assign":
-                bad = bad or f"recv_buffer rebound: {e}"
-    # the parser sees the whole buffer
-    calls = [n for n in walk_in_order(rh) if isinstance(n, ast.Call) and norm(n.func) in ("parse_client_hello", "dtls_parse_client_hello")]
-    if len(calls) != 2 or any([norm(a) for a in c.args] != ["self.recv_buffer"] for c in calls):
+        for i, e in enumerate(seq[1:], 1):
+            if is_parse(e):
+                continue
+            what = "cleared" if e == ("call", BUF + ".clear") else f"modified ({e[0]} {e[1]})"
+            if i < parse_i:
+                bad = bad or f"recv_buffer {what} before parsing"
+            elif not hello_found(conds):
+                bad = bad or f"recv_buffer {what} on a path where no complete ClientHello was found"
+    # the parser sees the whole buffer, the buffer receives exactly the new data
+    ext_sites, parse_calls = [], []
+    for fn in fns:
+        for n in _own_nodes(fn):
+            if isinstance(n, ast.Call):
+                for r in _callees(model, mod, fn, n):
+                    if _is_parser(r):
+                        parse_calls.append((fn, n, r[1]._qual))
+                if isinstance(n.func, ast.Attribute) and n.func.attr == "extend" and spec.canon(norm(n.func.value)) == BUF:
+                    ext_sites.append((n, n.args[0] if len(n.args) == 1 else None))
+            if isinstance(n, ast.AugAssign) and isinstance(n.op, ast.Add) and spec.canon(norm(n.target)) == BUF:
+                ext_sites.append((n, n.value))
+    ext_pos = min((_pos(n) for n, _ in ext_sites), default=(0, 0))
+
+    def whole(fn, e):
+        if attr_chain(e) == BUF or (isinstance(e, ast.Name) and e.id in aliases):
+            return True
+        if isinstance(e, ast.Call) and isinstance(e.func, ast.Name) and e.func.id in ("bytes", "bytearray", "memoryview") and len(e.args) == 1 and not e.keywords:
+            return whole(fn, e.args[0])
+        if isinstance(e, ast.Name) and e.id in copies:  # a copy taken after the new data was appended
+            ds = _defs(fn).get(e.id, [])
+            return len(ds) == 1 and ds[0][0] == "assign" and (fn is not rh or _pos(ds[0][1]) > ext_pos)
+        return False
+
+    ctx.require({q for _, _, q in parse_calls} == set(PARSERS), f"receive_handshake_data (helpers {sorted(helpers)}): the calls of {list(PARSERS)} are not all visible "
+                f"(found {sorted({q for _, _, q in parse_calls})}): shape not modelled")
+    if any(len(c.args) + len(c.keywords) != 1 or not whole(fn, (c.args + [k.value for k in c.keywords])[0]) for fn, c, _ in parse_calls):
         bad = bad or "the parser is not applied to the whole recv_buffer"
-    ext = [n for n in walk_in_order(rh) if isinstance(n, ast.Call) and norm(n.func) == "self.recv_buffer.extend"]
-    if len(ext) != 1 or [norm(a) for a in ext[0].args] != ["data"]:
+    data_names = set(data_params)  # the new data under the names it has in rh and in the helpers it is handed to
+    grew = True
+    while grew:
+        grew = False
+        for fn in fns:
+            for c in _own_calls(fn):
+                t = resolver(c)
+                if t is None:
+                    continue
+                a = t.args
+                ps = [x.arg for x in a.posonlyargs + a.args]
+                if ps and ps[0] in ("self", "cls") and isinstance(c.func, ast.Attribute):
+                    ps = ps[1:]
+                for pname, arg in list(zip(ps, c.args)) + [(k.arg, k.value) for k in c.keywords if k.arg]:
+                    if isinstance(arg, ast.Name) and arg.id in data_names and pname not in data_names:
+                        data_names.add(pname)
+                        grew = True
+    if len(ext_sites) != 1 or ext_sites[0][1] is None or not (isinstance(ext_sites[0][1], ast.Name) and ext_sites[0][1].id in data_names):
         bad = bad or "recv_buffer.extend is not fed exactly the new data"
     ctx.check(bad is None and n_parse >= 3, "R13.2", (L, "ClientTLSLayer.receive_handshake_data", rh), "append-then-parse-whole-buffer discipline", bad or "no parsing path found",
-              desc=f"{n_parse} unparsed-hello paths: extend(data) first, parser on whole recv_buffer, clear only after a hello was found")
-    # other writers of recv_buffer in the class
-    cls = ctx.model.cls(L, "ClientTLSLayer")
-    writers = sorted({norm(n) for n in walk_in_order(cls) if isinstance(n, ast.Attribute) and n.attr == "recv_buffer" and isinstance(n.ctx, ast.Store)
-                      for n in [n._parent]})
-    wfn = {fn.name for fn in cls.body if isinstance(fn, ast.FunctionDef) for n in walk_in_order(fn)
-           if isinstance(n, ast.Attribute) and n.attr == "recv_buffer" and (isinstance(n.ctx, ast.Store) or (isinstance(n._parent, ast.Attribute) and n._parent.attr in ("extend", "clear", "append", "pop", "__delitem__")))}
-    ctx.check(wfn <= {"__init__", "receive_handshake_data"}, "R13.2", (L, "ClientTLSLayer", cls), "writers of recv_buffer", f"recv_buffer is also modified in {sorted(wfn - {'__init__', 'receive_handshake_data'})}",
-              desc=f"recv_buffer written only in {sorted(wfn)}")
-    # purity of the parsers
-    impure = []
-    for q in ("handshake_record_contents", "get_client_hello", "parse_client_hello", "dtls_handshake_record_contents", "get_dtls_client_hello", "dtls_parse_client_hello"):
-        fn = ctx.func(L, q)
-        params = {a.arg for a in fn.args.args}
+              desc=f"{n_parse} unparsed-hello paths (helpers inlined: {sorted(helpers)}): extend(data) first, parser on whole recv_buffer, buffer modified only after a hello was found")
+    # who may write recv_buffer: __init__, receive_handshake_data and private helpers called from there only
+    cls = model.cls(L, "ClientTLSLayer")
+    meths = {st.name: st for st in cls.body if isinstance(st, (ast.FunctionDef, ast.AsyncFunctionDef))}
+
+    def writes_buf(fn):
         for n in walk_in_order(fn):
-            if isinstance(n, (ast.Global, ast.Nonlocal)):
-                impure.append(f"{q}: {norm(n)}")
-            if isinstance(n, (ast.Attribute, ast.Subscript)) and isinstance(n.ctx, (ast.Store, ast.Del)):
+            if isinstance(n, ast.Attribute) and n.attr == "recv_buffer":
+                p = n._parent
+                if isinstance(n.ctx, (ast.Store, ast.Del)) or (isinstance(p, ast.Attribute) and p.attr in MUTATORS) or (isinstance(p, ast.Subscript) and isinstance(p.ctx, (ast.Store, ast.Del))) \
+                        or (isinstance(p, ast.AugAssign) and p.target is n):
+                    return True
+        return False
+
+    allowed = {"__init__", rh.name}
+    grew = True
+    while grew:
+        grew = False
+        for name in helpers:
+            if name in allowed or name not in meths:
+                continue
+            uses = [(m, n) for m in modules_mentioning(model, name) for n in ast.walk(m.tree) if isinstance(n, ast.Attribute) and n.attr == name]
+            if uses and all(m.rel == L and isinstance(n.value, ast.Name) and n.value.id == "self" and isinstance(n._parent, ast.Call) and n._parent.func is n
+                            and enclosing_func(n) is not None and _class_of(enclosing_func(n)) is cls and enclosing_func(n).name in allowed for m, n in uses):
+                allowed.add(name)
+                grew = True
+    wfn = {name for name, fn in meths.items() if writes_buf(fn)}
+    ctx.check(wfn <= allowed, "R13.2", (L, "ClientTLSLayer", cls), "writers of recv_buffer", f"recv_buffer is also modified in {sorted(wfn - allowed)}",
+              desc=f"recv_buffer written only in {sorted(wfn)} (allowed: __init__, receive_handshake_data and helpers called from there only: {sorted(allowed)})")
+    # purity of the parsers and of everything they call (constructors excepted)
+    impure = []
+    pure_fns: dict = {}
+    todo = [(mod, ctx.func(L, q)) for q in WALKERS]
+    while todo:
+        m, fn = todo.pop()
+        k = (m.rel, fn._qual)
+        if k in pure_fns:
+            continue
+        pure_fns[k] = fn
+        if len(pure_fns) > 40:
+            raise AnalysisError("R13.2: the call tree of the ClientHello parsers grew beyond 40 functions (shape not modelled)")
+        for c in _own_calls(fn):
+            r = _callee(model, m, _class_of(fn), c)
+            if r is not None and r[1].name != "__init__":
+                todo.append(r)
+    # state that the parsers write but never read (a counter, a "last seen" note) cannot influence a result: only state that is also read counts
+    loads_name = {n.id for fn in pure_fns.values() for n in ast.walk(fn) if isinstance(n, ast.Name) and isinstance(n.ctx, ast.Load)
+                  and not (isinstance(n._parent, ast.Subscript) and n._parent.value is n and isinstance(n._parent.ctx, (ast.Store, ast.Del)))}
+    loads_attr = {n.attr for fn in pure_fns.values() for n in ast.walk(fn) if isinstance(n, ast.Attribute) and isinstance(n.ctx, ast.Load)
+                  and not (isinstance(n._parent, ast.Call) and n._parent.func is n and n.attr in ("debug", "info", "warning", "error"))}
+    for (rel, q), fn in sorted(pure_fns.items()):
+        a = fn.args
+        params = {x.arg for x in a.posonlyargs + a.args + a.kwonlyargs}
+        for n in walk_in_order(fn):
+            if isinstance(n, (ast.Global, ast.Nonlocal)) and set(n.names) & loads_name:
+                impure.append(f"{q}: {norm(n)} (read by the parsers)")
+            if isinstance(n, ast.Attribute) and isinstance(n.ctx, (ast.Store, ast.Del)) and (n.attr in loads_attr or attr_chain(n).split(".")[0] in params):
                 impure.append(f"{q}: writes {norm(n)}")
-            if isinstance(n, ast.Call) and isinstance(n.func, ast.Attribute) and isinstance(n.func.value, ast.Name) and n.func.value.id in params \
-                    and n.func.attr in ("extend", "append", "clear", "pop", "insert", "remove", "reverse", "sort"):
+            if isinstance(n, ast.Subscript) and isinstance(n.ctx, (ast.Store, ast.Del)):
+                head = (attr_chain(n.value) or "?").split(".")[0]
+                if head == "?" or head in params or head in loads_name or (isinstance(n.value, ast.Attribute) and n.value.attr in loads_attr):
+                    impure.append(f"{q}: writes {norm(n)}")
+            if isinstance(n, ast.Call) and isinstance(n.func, ast.Attribute) and isinstance(n.func.value, ast.Name) and n.func.value.id in params and n.func.attr in MUTATORS:
                 impure.append(f"{q}: mutates its argument: {norm(n)}")
-    ctx.check(not impure, "R13.2", (L, "parse_client_hello", ctx.func(L, "parse_client_hello")), "record walkers and parsers are pure", "; ".join(impure), desc="6 parser functions: no global / attribute / argument writes")
+            if isinstance(n, ast.AugAssign) and isinstance(n.target, ast.Name) and n.target.id in params and n.target.id not in {t for t, ds in _defs(fn).items() if any(kd == "assign" for kd, _ in ds)}:
+                impure.append(f"{q}: updates its argument in place: {norm(n)}")
+    ctx.check(not impure, "R13.2", (L, "parse_client_hello", ctx.func(L, "parse_client_hello")), "record walkers and parsers are pure", "; ".join(impure),
+              desc=f"{len(pure_fns)} functions (the 6 parser functions and what they call): no global / attribute / argument writes")
     # NextLayer feeds the joined client data
-    nl = ctx.func(NL, "NextLayer.next_layer")
-    feeds = [n for n in walk_in_order(nl) if isinstance(n, ast.Call) and norm(n.func) == "self._next_layer"]
-    ok = len(feeds) == 1 and len(feeds[0].args) >= 2 and norm(feeds[0].args[1]) == "nextlayer.data_client()"
-    data = ctx.func("mitmproxy/proxy/layer.py", "NextLayer._data")
-    ok2 = any(isinstance(n, ast.Return) and isinstance(n.value, ast.Call) and norm(n.value.func) in ("b''.join", 'b"".join') for n in walk_in_order(data)) \
-        and "for e in self.events" in ast.unparse(data)
-    ctx.check(ok and ok2, "R13.2", (NL, "NextLayer.next_layer", nl), "NextLayer parses nextlayer.data_client() = join of all buffered client data",
-              "the layer decision no longer sees the concatenation of everything received", desc="NextLayer: data_client() joins all DataReceived events")
+    _r13_2_nextlayer(ctx)
     ctx.expect_instances("R13.2", 4)
 
 
-LAYOUT = {
-    # walker, assembler, parser: (record header bytes, offset of the 2-byte length, handshake header bytes)
-    "tls": ("handshake_record_contents", "get_client_hello", "parse_client_hello", 5, 3, 4),
-    "dtls": ("dtls_handshake_record_contents", "get_dtls_client_hello", "dtls_parse_client_hello", 13, 11, 12),
-}
+def _r13_2_nextlayer(ctx):
+    from ..pyint import Interp
+    from ..pyint import Raised
+    from ..pyint import Rec
+
+    model = ctx.model
+    nl = ctx.func(NL, "NextLayer.next_layer")
+    a = nl.args
+    params = [x.arg for x in a.posonlyargs + a.args][1:]
+    ctx.require(len(params) == 1, "NextLayer.next_layer: signature changed")
+    want = f"{params[0]}.data_client()"
+
+    def resolves(e):
+        if norm(e) == want:
+            return True
+        if isinstance(e, ast.Name):
+            ds = _defs(nl).get(e.id, [])
+            return len(ds) == 1 and ds[0][0] == "assign" and norm(ds[0][1].value) == want
+        return False
+
+    feeds = [n for n in walk_in_order(nl) if isinstance(n, ast.Call) and norm(n.func) == "self._next_layer"]
+    inner = ctx.func(NL, "NextLayer._next_layer")
+    ia = [x.arg for x in inner.args.posonlyargs + inner.args.args][1:]
+    ok = len(feeds) == 1 and len(ia) >= 2
+    if ok:
+        bound = dict(zip(ia, feeds[0].args))
+        bound.update({k.arg: k.value for k in feeds[0].keywords if k.arg})
+        ok = ia[1] in bound and resolves(bound[ia[1]])
+    # data_client() interpreted: the concatenation, in order, of the data of all buffered client DataReceived events
+    ctx.func(LAYER, "NextLayer._data")
+    client, server = Rec("Client", _name="client"), Rec("Server", _name="server")
+    context = Rec("Context", client=client, server=server)
+    ev = "mitmproxy/proxy/events.py"
+
+    def dr(conn, data):
+        return Rec("DataReceived", _bases=("ConnectionEvent", "Event"), _impl=(ev, "DataReceived"), connection=conn, data=data)
+
+    cases = [
+        [],
+        [dr(client, b"ab")],
+        [Rec("Start", _bases=("Event",), _impl=(ev, "Start")), dr(client, b"ab"), dr(server, b"XY"), dr(client, b""), dr(client, b"cd"),
+         Rec("ConnectionClosed", _bases=("ConnectionEvent", "Event"), _impl=(ev, "ConnectionClosed"), connection=client), dr(client, b"e")],
+    ]
+    ok2 = True
+    for events in cases:
+        layer_rec = Rec("NextLayer", _impl=(LAYER, "NextLayer"), context=context, events=list(events))
+        it = Interp(model)
+        try:
+            got = it.method(layer_rec, "data_client")
+        except Raised:
+            got = None
+        expect = b"".join(e.data for e in events if e._cls == "DataReceived" and e.connection is client)
+        ctx.cells += 1
+        if got != expect:
+            ok2 = False
+    ctx.check(ok and ok2, "R13.2", (NL, "NextLayer.next_layer", nl), "NextLayer parses nextlayer.data_client() = join of all buffered client data",
+              "the layer decision no longer sees the concatenation of everything received", desc="NextLayer: data_client() (interpreted) joins all DataReceived events of the client, in order; it is what _next_layer is given")
+
+
+# ---------------------------------------------------------------------------------------------------
+# R13.3 / R13.4: the walkers interpreted
 
 
 def _r13_3(ctx):
-    for proto, (walker, assembler, parser, hdr, len_off, hs_hdr) in LAYOUT.items():
+    wk = _walkers(ctx)
+    for proto, (walker, assembler, parser, hdr, len_off, hs_hdr, len_at) in LAYOUT.items():
+        w = ctx.func(L, walker)
+        ctx.func(L, assembler)
+        ctx.func(L, parser)
         bad = []
-        w, a, p = ctx.func(L, walker), ctx.func(L, assembler), ctx.func(L, parser)
-        us = _unpack_sites(w) + _unpack_sites(a)
-        ctx.require(len(us) == 2, f"{proto}: expected one struct.unpack in {walker} and one in {assembler}")
-        for u in us:
-            fn = w if u in _unpack_sites(w) else a
-            n = exact_len(u.args[1], fn, u)
-            size = _struct.calcsize(u.args[0].value)
+
+        def expect(got, want, what):
             ctx.cells += 1
-            if n != size:
-                bad.append(f"{fn.name}: `{norm(u)}` is applied to {'a buffer of unproven length' if n is None else f'{n} bytes'} but the format needs {size}")
-        # record header: data[offset : offset + H]; length field [k:]; offset += H; empty records rejected
-        d = _single_def(w, "record_header")
-        got_hdr = _const_int(d.value.slice.upper.right) if d is not None and isinstance(d.value, ast.Subscript) and isinstance(d.value.slice, ast.Slice) and isinstance(d.value.slice.upper, ast.BinOp) else None
-        u = _unpack_sites(w)[0]
-        got_off = _const_int(u.args[1].slice.lower) if isinstance(u.args[1], ast.Subscript) and isinstance(u.args[1].slice, ast.Slice) else None
-        adv = [_const_int(n.value) for n in walk_in_order(w) if isinstance(n, ast.AugAssign) and norm(n.target) == "offset" and isinstance(n.op, ast.Add) and _const_int(n.value) is not None]
-        adv2 = [norm(n.value) for n in walk_in_order(w) if isinstance(n, ast.AugAssign) and norm(n.target) == "offset" and _const_int(n.value) is None]
-        zero = any(isinstance(n, ast.If) and norm(n.test) == "record_size == 0" and any(isinstance(x, ast.Raise) for x in n.body) for n in walk_in_order(w))
-        if (got_hdr, got_off, adv, adv2) != (hdr, len_off, [hdr], ["record_size"]):
-            bad.append(f"{walker}: record header {got_hdr} bytes, length field at {got_off}, advances {adv}+{adv2}; the {proto.upper()} layout is {hdr} / {len_off} / [{hdr}]+['record_size']")
-        if not zero:
-            bad.append(f"{walker}: empty records are not rejected (the walker could loop without consuming the announced hello)")
-        # handshake header: size = unpack(...)[0] + HS ; parser strips HS bytes
-        plus = [_const_int(n.right) for n in walk_in_order(a) if isinstance(n, ast.BinOp) and isinstance(n.op, ast.Add) and isinstance(n.left, ast.Subscript) and isinstance(n.left.value, ast.Call)
-                and norm(n.left.value.func) == "struct.unpack"]
-        strip = [_const_int(n.args[0].slice.lower) for n in walk_in_order(p) if isinstance(n, ast.Call) and norm(n.func) == "ClientHello" and n.args and isinstance(n.args[0], ast.Subscript)
-                 and isinstance(n.args[0].slice, ast.Slice)]
-        lenfield = _unpack_sites(a)[0].args[1]
-        lf = (norm(lenfield.right.slice) if isinstance(lenfield, ast.BinOp) and isinstance(lenfield.right, ast.Subscript) else None)
-        want_lf = "1:4" if proto == "tls" else "9:12"
-        ctx.cells += 3
-        if plus != [hs_hdr] or strip != [hs_hdr] or lf != want_lf:
-            bad.append(f"{assembler}/{parser}: handshake header added {plus}, stripped {strip}, 24-bit length taken from [{lf}]; the {proto.upper()} layout is {hs_hdr} / {hs_hdr} / [{want_lf}]")
+            if got != want and len(bad) < 3:
+                bad.append(f"{what}: got {_show(got)}, the {proto.upper()} layout (record header {hdr} with the length at {len_off}, handshake header {hs_hdr} with the length at {len_at}) gives {_show(want)}")
+
+        # record header: every prefix of a three-record stream yields exactly the complete records and raises nothing
+        bodies = [b"\xa1", b"\xb1\xb2\xb3\xb4", b"\xc1\xc2"]
+        stream = b"".join(_record(proto, b, seq=i) for i, b in enumerate(bodies))
+        ends, pos = [], 0
+        for b in bodies:
+            pos += hdr + len(b)
+            ends.append(pos)
+        for k in range(len(stream) + 1):
+            expect(wk.run(walker, stream[:k], drive=True), [b for b, e in zip(bodies, ends) if e <= k], f"{walker} on the first {k} bytes of records with bodies of {[len(b) for b in bodies]} bytes")
+        expect(wk.run(walker, bytearray(stream), drive=True), bodies, f"{walker} on a bytearray")
+        big = bytes((7 * i + 3) % 251 for i in range(0x0102))
+        expect(wk.run(walker, _record(proto, big) + _record(proto, b"\xd1", seq=1), drive=True), [big, b"\xd1"], f"{walker} on a record of 0x0102 bytes followed by one byte")
+        badver = bytearray(_record(proto, b"\x01"))
+        badver[1:3] = b"\x02\x00"
+        for data, what in ((_record(proto, b""), "an empty record"), (_record(proto, b"\x01", typ=0x17), "a non-handshake record"), (bytes(badver), "a record with a foreign version"),
+                           (_record(proto, b"\x01") + _record(proto, b""), "an empty record after a valid one")):
+            got = wk.run(walker, data, drive=True)
+            ctx.cells += 1
+            if got != "<raises ValueError>" and len(bad) < 3:
+                bad.append(f"{walker} accepts {what} ({_show(got)} instead of ValueError)" + (": empty records are not rejected" if "empty" in what else ""))
+        # handshake header: the 24-bit length (each of its bytes exercised) plus the header size delimits the message; the parser strips the header
+        for n in (1, 0x0102, 0x010203):
+            body = bytes((5 * i + 1) % 253 for i in range(n))
+            msg = _handshake(proto, body)
+            chunks = [msg[i : i + 0xF000] for i in range(0, len(msg), 0xF000)]
+            stream = b"".join(_record(proto, c, seq=i) for i, c in enumerate(chunks))
+            tail = _record(proto, b"\x02\x00\x00\x01Z", seq=9)
+            expect(wk.run(assembler, stream), msg, f"{assembler} on a message with a {n}-byte body in {len(chunks)} record(s)")
+            expect(wk.run(assembler, stream + tail), msg, f"{assembler} on a message with a {n}-byte body followed by another record")
+            expect(wk.run(assembler, stream[:-1]), None, f"{assembler} on a message with a {n}-byte body, last byte missing")
+            if n < 0x8000:
+                expect(wk.run(assembler, _record(proto, msg + b"\x0e\x00\x00\x00")), msg, f"{assembler} on a record carrying a {n}-byte-body message and the start of the next one")
+            expect(wk.run(parser, stream + tail, stub=True), ("$ClientHello", msg[hs_hdr:], proto == "dtls"), f"{parser}: bytes handed to ClientHello(..) for a message with a {n}-byte body")
+            expect(wk.run(parser, stream[:-1], stub=True), None, f"{parser} on an incomplete message")
         ctx.check(not bad, "R13.3", (L, walker, w), f"{proto.upper()} record / handshake header arithmetic", "; ".join(bad),
-                  desc=f"{proto}: record header {hdr}, length at {len_off}, handshake header {hs_hdr}; both unpack buffers have the exact format size")
+                  desc=f"{proto}: record header {hdr}, length at {len_off}, handshake header {hs_hdr}, 24-bit length at {len_at}: every prefix of a 3-record stream yields the complete records, "
+                       f"empty / foreign records are rejected, messages of 1 / 0x0102 / 0x010203 bytes are delimited exactly and handed to ClientHello without the header")
+    ctx.bounds.append("R13.3: per protocol one 3-record stream (all byte prefixes), one 0x0102-byte record, 4 malformed streams, 3 message sizes x 6 shapes (AST interpretation)")
     ctx.expect_instances("R13.3", 2)
 
 
@@ -348,11 +1567,9 @@ def _r13_4(ctx):
     prefix of each such stream, and streams with trailing records.  Bounded representative enumeration (message body of 7 bytes):
     the weakest kind of argument used here, it decides the clause only up to that bound."""
     import itertools
-    import struct
 
-    from ..pyint import Interp
-    from ..pyint import Raised
-
+    wk = _walkers(ctx)
+    run = wk.run
     m = ctx.model
     ctx.func(L, "get_client_hello")
     ctx.func(L, "handshake_record_contents")
@@ -362,13 +1579,6 @@ def _r13_4(ctx):
     def rec(b, typ=0x16):
         return bytes([typ, 3, 1]) + len(b).to_bytes(2, "big") + b
 
-    def run(qual, data):
-        it = Interp(m, trusted_modules={"struct": struct})
-        try:
-            return it.call(L, qual, data)
-        except Raised as r:
-            return f"<raises {r.name}>"
-
     where = (L, "get_client_hello", m.func(L, "get_client_hello"))
     bad = None
     n = 0
@@ -377,7 +1587,8 @@ def _r13_4(ctx):
         edges = (0, *cuts, len(msg))
         frags = [msg[a:b] for a, b in zip(edges, edges[1:])]
         stream = b"".join(rec(f) for f in frags)
-        for tail, tname in ((b"", "none"), (rec(b"\x02\x00\x00\x01Z"), "next handshake record"), (rec(b"x", 0x17), "application-data record"), (b"\x16\x03", "partial header")):
+        tails = ((b"", "none"), (rec(b"\x02\x00\x00\x01Z"), "next handshake record"), (rec(b"x", 0x17), "application-data record"), (b"\x16\x03", "partial header"))
+        for tail, tname in tails if len(cuts) <= 1 else tails[:2]:  # what follows the complete message is never looked at: two tails suffice for the 3-record splits
             got = run("get_client_hello", stream + tail)
             n += 1
             if got != msg and bad is None:
@@ -420,21 +1631,34 @@ def _r13_4(ctx):
         ctx.cells += 1
         if got is not None and dbad is None:
             dbad = (f"one record with the first {cut} of {len(dmsg)} message bytes:", got, None)
+    # the message spread over several DTLS records (the walker concatenates record bodies), every prefix
+    for cut in (1, 13):
+        two = dr(dmsg[:cut]) + dr(dmsg[cut:])
+        for k in range(len(two) + 1):
+            got = run("get_dtls_client_hello", two[:k])
+            want = dmsg if k == len(two) else None
+            ctx.cells += 1
+            if got != want and dbad is None:
+                dbad = (f"{k} (records of {cut} + {len(dmsg) - cut} message bytes)", got, want)
     ctx.check(dbad is None, "R13.4", (L, "get_dtls_client_hello", m.func(L, "get_dtls_client_hello")), "DTLS ClientHello extraction on every prefix of a datagram",
               f"first {dbad[0]} bytes: got {dbad[1]!r}, expected {dbad[2]!r}" if dbad else "", desc=f"get_dtls_client_hello: {len(drec) + 2} prefixes: message exactly when complete")
-    ctx.bounds.append("R13.4: one synthetic handshake message (7-byte body), all 1-3 record splits x 4 tails, all byte prefixes of the 1- and 2-record streams")
+    ctx.bounds.append("R13.4: one synthetic handshake message (7-byte body), all 1-3 record splits x 4 tails (2 tails for the 3-record splits), all byte prefixes of the 1- and 2-record streams (TLS and DTLS)")
     ctx.expect_instances("R13.4", 5)
 
 
 def check(ctx):
     ctx.rule("R13.4", "ClientHello record reassembly gives the message exactly when it is complete, for every record split / prefix / tail of a short message (bounded, AST interpretation)")
-    ctx.rule("R13.1", "escape set of ClientHello parsing on untrusted bytes is handled at every call site; properties read afterwards raise nothing modelled")
+    ctx.rule("R13.1", "escape set of ClientHello parsing on untrusted bytes is handled wherever the parsers are reached; properties read afterwards raise nothing modelled")
     ctx.rule("R13.2", "parsing is a function of the concatenation: append-only buffer, whole-buffer parse, pure parsers")
-    ctx.rule("R13.3", "record-walking arithmetic matches the TLS/DTLS layouts and every struct.unpack gets a buffer of exactly the format size")
-    _r13_1(ctx)
-    _r13_2(ctx)
-    _r13_3(ctx)
-    _r13_4(ctx)
+    ctx.rule("R13.3", "record-walking arithmetic matches the TLS/DTLS layouts: the walkers, interpreted on crafted records, yield exactly the complete records / the announced message and never raise on a prefix")
+    wk = _walkers(ctx)
+    n0 = len(ctx.deferred)
+    # the interpreted rules first: their runs are the (bounded) fall-back evidence for length-driven raisers in R13.1
+    ctx.guard(_r13_3, ctx)
+    ctx.guard(_r13_4, ctx)
+    wk.complete = len(ctx.deferred) == n0
+    ctx.guard(_r13_1, ctx)
+    ctx.guard(_r13_2, ctx)
 
 
 MUTANTS = [
@@ -453,7 +1677,14 @@ MUTANTS = [
     Mutant("empty-record-raises-runtimeerror", L, "            raise ValueError(\"Record must not be empty.\")\n        offset += 5\n", "            raise RuntimeError(\"Record must not be empty.\")\n        offset += 5\n", "R13.1"),
     Mutant("sni-decoded-without-host-check", T, "                    and check.is_valid_host(extension.body.server_names[0].host_name)\n", "", "R13.1"),
     Mutant("sni-indexed-without-length-check", T, "                    and len(extension.body.server_names) == 1\n", "", "R13.1"),
+    Mutant("assert-on-handshake-type-instead-of-valueerror", L, "        client_hello += d\n        if len(client_hello) >= 4:\n",
+           "        client_hello += d\n        assert client_hello[0] == 0x01, \"not a ClientHello\"\n        if len(client_hello) >= 4:\n", "R13.1"),
+    Mutant("assert-record-length-without-the-guard", L, "        if len(data) < offset + record_size:\n            return\n        record_body = data[offset : offset + record_size]\n        yield record_body\n        offset += record_size\n\n\ndef get_client_hello",
+           "        record_body = data[offset : offset + record_size]\n        assert len(record_body) == record_size\n        yield record_body\n        offset += record_size\n\n\ndef get_client_hello", "R13.1"),
     # R13.2
+    Mutant("buffer-dropped-on-handshake-error", L, "    def on_handshake_error(self, err: str) -> layer.CommandGenerator[None]:\n        if self.conn.sni:\n",
+           "    def on_handshake_error(self, err: str) -> layer.CommandGenerator[None]:\n        self.recv_buffer.clear()\n        if self.conn.sni:\n", "R13.2"),
+    Mutant("nextlayer-data-mixes-both-directions", LAYER, "            if isinstance(e, mevents.DataReceived) and e.connection == connection\n", "            if isinstance(e, mevents.DataReceived)\n", "R13.2"),
     Mutant("parses-only-the-new-segment", L, "                client_hello = parse_client_hello(self.recv_buffer)", "                client_hello = parse_client_hello(data)", "R13.2"),
     Mutant("buffer-cleared-when-incomplete", L, "        else:\n            return False, None\n\n        self.conn.sni", "        else:\n            self.recv_buffer.clear()\n            return False, None\n\n        self.conn.sni", "R13.2"),
     Mutant("buffer-replaced-instead-of-extended", L, "        self.recv_buffer.extend(data)\n        try:\n            if self.is_dtls:", "        self.recv_buffer = bytearray(data)\n        try:\n            if self.is_dtls:", "R13.2"),
@@ -466,5 +1697,6 @@ MUTANTS = [
     Mutant("dtls-uses-total-length-field", L, "b\"\\x00\" + client_hello[9:12])[0] + 12", "b\"\\x00\" + client_hello[1:4])[0] + 12", "R13.3"),
     Mutant("tls-parser-strips-wrong-header", L, "return ClientHello(client_hello[4:])", "return ClientHello(client_hello[5:])", "R13.3"),
     Mutant("dtls-empty-record-accepted", L, "        if record_size == 0:\n            raise ValueError(\"Record must not be empty.\")\n        offset += 13\n", "        offset += 13\n", "R13.3"),
+    Mutant("dtls-record-length-little-endian", L, "record_size = struct.unpack(\"!H\", record_header[11:])[0]", "record_size = struct.unpack(\"<H\", record_header[11:])[0]", "R13.3"),
     Mutant("dtls-advances-by-tls-header", L, "        offset += 13\n", "        offset += 5\n", "R13.3"),
 ]
